@@ -1,5 +1,5 @@
 (* CompileSemProofs.v — compile_correct for statements with control flow:
-   assignments to globals, if / else (one condition), while — nested.
+   assignments to globals, if / else-if / else chains, while, break — nested.
    Part 1: a fuel-indexed big-step semantics; the LAYOUT relation describing
    the final code of a compiled statement; the simulation theorem: the VM
    model run on code laid out that way reaches the globals of the semantics
@@ -13,37 +13,59 @@ Open Scope N_scope.
 
 (* ---------- semantics ---------- *)
 (* [None]: out of fuel, or an expression whose evaluation is undefined
-   (eval_expr), or a statement outside the fragment *)
-Fixpoint exec_s (fuel : nat) (s : stmt) (env : genv) {struct fuel} : option genv :=
+   (eval_expr), or a statement outside the fragment; the boolean of a result
+   says that a `break` is under way (the innermost enclosing loop ends it) *)
+Fixpoint exec_s (fuel : nat) (s : stmt) (env : genv) {struct fuel} : option (genv * bool) :=
   match fuel with
   | O => None
   | S f =>
       match s with
-      | SDecl n e => option_map (upd env n) (eval_expr env e)
-      | SAssign (EVar n) e => option_map (upd env n) (eval_expr env e)
-      | SEmpty => Some env
-      | SIf c b CNil els =>
-          match eval_expr env c with
-          | Some (VBool true) => exec_l f b env
-          | Some (VBool false) => match els with NoElse => Some env | Else eb => exec_l f eb env end
-          | _ => None
-          end
+      | SDecl n e => option_map (fun v => (upd env n v, false)) (eval_expr env e)
+      | SAssign (EVar n) e => option_map (fun v => (upd env n v, false)) (eval_expr env e)
+      | SEmpty => Some (env, false)
+      | SBreak => Some (env, true)
+      | SIf c b elifs els => exec_c f (CCons c b elifs) els env
       | SWhile c b =>
           match eval_expr env c with
-          | Some (VBool true) => match exec_l f b env with Some env1 => exec_s f (SWhile c b) env1 | None => None end
-          | Some (VBool false) => Some env
+          | Some (VBool true) =>
+              match exec_l f b env with
+              | Some (env1, false) => exec_s f (SWhile c b) env1
+              | Some (env1, true) => Some (env1, false)          (* break leaves the loop *)
+              | None => None
+              end
+          | Some (VBool false) => Some (env, false)
           | _ => None
           end
       | _ => None
       end
   end
-with exec_l (fuel : nat) (l : slist) (env : genv) {struct fuel} : option genv :=
+with exec_l (fuel : nat) (l : slist) (env : genv) {struct fuel} : option (genv * bool) :=
   match fuel with
   | O => None
   | S f =>
       match l with
-      | SNil => Some env
-      | SCons s1 t => match exec_s f s1 env with Some env1 => exec_l f t env1 | None => None end
+      | SNil => Some (env, false)
+      | SCons s1 t =>
+          match exec_s f s1 env with
+          | Some (env1, false) => exec_l f t env1
+          | Some (env1, true) => Some (env1, true)               (* the rest of the block is skipped *)
+          | None => None
+          end
+      end
+  end
+(* the condition chain of an if statement: the first true condition runs its block *)
+with exec_c (fuel : nat) (l : clist) (els : oslist) (env : genv) {struct fuel} : option (genv * bool) :=
+  match fuel with
+  | O => None
+  | S f =>
+      match l with
+      | CNil => match els with NoElse => Some (env, false) | Else eb => exec_l f eb env end
+      | CCons c b t =>
+          match eval_expr env c with
+          | Some (VBool true) => exec_l f b env
+          | Some (VBool false) => exec_c f t els env
+          | _ => None
+          end
       end
   end.
 
@@ -51,12 +73,14 @@ with exec_l (fuel : nat) (l : slist) (env : genv) {struct fuel} : option genv :=
 Fixpoint sdepth (s : stmt) : N :=
   match s with
   | SDecl _ e | SAssign _ e => edepth e
-  | SIf c b _ els => N.max (edepth c) (N.max (ldepth b) (match els with NoElse => 0 | Else eb => ldepth eb end))
+  | SIf c b elifs els => N.max (edepth c) (N.max (ldepth b) (N.max (cdepth elifs) (match els with NoElse => 0 | Else eb => ldepth eb end)))
   | SWhile c b => N.max (edepth c) (ldepth b)
   | _ => 0
   end
 with ldepth (l : slist) : N :=
-  match l with SNil => 0 | SCons s t => N.max (sdepth s) (ldepth t) end.
+  match l with SNil => 0 | SCons s t => N.max (sdepth s) (ldepth t) end
+with cdepth (l : clist) : N :=
+  match l with CNil => 0 | CCons c b t => N.max (edepth c) (N.max (ldepth b) (cdepth t)) end.
 
 (* ---------- the layout of compiled statements ---------- *)
 Definition same_resolve (a b : symtab) : Prop := forall n, st_resolve n a = st_resolve n b.
@@ -64,55 +88,78 @@ Definition same_resolve (a b : symtab) : Prop := forall n, st_resolve n a = st_r
 Definition jbytes (o : opc) (T : N) (bs : list N) : Prop :=
   exists hi lo, bs = [N_of_opc o; hi; lo] /\ hi * 256 + lo = T.
 
-Inductive LAY : stmt -> cstate -> cstate -> list N -> Prop :=
-| lay_assign n e st st1 st' y seg_e sg :
+(* an end-of-block jump: to End, or still holding the placeholder *)
+Definition jshape (fin : bool) (End : N) (je : list N) : Prop :=
+  if fin then jbytes Jump End je else exists h0 l0, je = [N_of_opc Jump; h0; l0].
+
+(* a break jump: to the end of the innermost loop, or still holding the placeholder *)
+Definition bshape (brk : option N) (jb : list N) : Prop :=
+  match brk with Some T => jbytes Jump T jb | None => exists h0 l0, jb = [N_of_opc Jump; h0; l0] end.
+
+(* LAY brk s st st' bs seg: seg is the code of s compiled from st to st';
+   bs are the positions of the break jumps of s that belong to an enclosing
+   loop; they jump to T (brk = Some T) or are still pending (brk = None: the
+   code before the enclosing compileWhileStatement patched c.breaks) *)
+Inductive LAY : option N -> stmt -> cstate -> cstate -> list Z -> list N -> Prop :=
+| lay_assign brk n e st st1 st' y seg_e sg :
     efrag e = true -> compile_expr true e st = COk st1 -> ccode st1 = ccode st ++ seg_e ->
     st_resolve n (csym st) = Some y -> sscp y = GlobalScope -> jbytes SetGlobal (sidx y) sg ->
     cconsts st' = cconsts st1 -> csym st' = csym st ->
-    LAY (SAssign (EVar n) e) st st' (seg_e ++ sg)
-| lay_empty st : LAY SEmpty st st []
-| lay_while c b st st1 stx stb st' seg_c seg_b jf jb :
+    LAY brk (SAssign (EVar n) e) st st' [] (seg_e ++ sg)
+| lay_empty brk st : LAY brk SEmpty st st [] []
+| lay_break brk st st' jb :
+    bshape brk jb -> cconsts st' = cconsts st -> csym st' = csym st ->
+    LAY brk SBreak st st' [Z.of_nat (List.length (ccode st))] jb
+| lay_while brk c b st st1 stx stb st' bs_b seg_c seg_b jf jb :
     efrag c = true -> compile_expr true c st = COk st1 -> ccode st1 = ccode st ++ seg_c ->
     cconsts stx = cconsts st1 -> same_resolve (csym stx) (csym st) ->
     N.of_nat (List.length (ccode stx)) = N.of_nat (List.length (ccode st1)) + 3 ->
-    LAYL b stx stb seg_b ->
+    LAYL (Some (N.of_nat (List.length (ccode st)) + N.of_nat (List.length (seg_c ++ jf ++ seg_b ++ jb)))) b stx stb bs_b seg_b ->
     jbytes JumpOnFalse (N.of_nat (List.length (ccode st)) + N.of_nat (List.length (seg_c ++ jf ++ seg_b ++ jb))) jf ->
     jbytes Jump (N.of_nat (List.length (ccode st))) jb ->
     cconsts st' = cconsts stb -> csym st' = csym st ->
-    LAY (SWhile c b) st st' (seg_c ++ jf ++ seg_b ++ jb)
-| lay_if_noelse c b st st1 stx stb st' seg_c seg_b jf je :
+    LAY brk (SWhile c b) st st' [] (seg_c ++ jf ++ seg_b ++ jb)
+| lay_if brk c b elifs els st ste st' js bs seg :
+    LAYC brk true (CCons c b elifs) els st ste (N.of_nat (List.length (ccode st)) + N.of_nat (List.length seg)) js bs seg ->
+    cconsts st' = cconsts ste -> csym st' = csym st ->
+    LAY brk (SIf c b elifs els) st st' bs seg
+with LAYL : option N -> slist -> cstate -> cstate -> list Z -> list N -> Prop :=
+| layl_nil brk st : LAYL brk SNil st st [] []
+| layl_cons brk s t st st1 st2 bs1 bs2 seg1 seg2 :
+    LAY brk s st st1 bs1 seg1 ->
+    N.of_nat (List.length (ccode st1)) = N.of_nat (List.length (ccode st)) + N.of_nat (List.length seg1) ->
+    LAYL brk t st1 st2 bs2 seg2 ->
+    LAYL brk (SCons s t) st st2 (bs1 ++ bs2) (seg1 ++ seg2)
+(* a chain of `cond / block` with its else part; every block ends with a jump
+   to End (fin = true) or with a jump whose operand is still the placeholder
+   (fin = false: the code before compileIfStatement's final patching); js are
+   the positions of those jumps *)
+with LAYC : option N -> bool -> clist -> oslist -> cstate -> cstate -> N -> list Z -> list Z -> list N -> Prop :=
+| layc_nil_noelse brk fin st End : End = N.of_nat (List.length (ccode st)) -> LAYC brk fin CNil NoElse st st End [] [] []
+| layc_nil_else brk fin eb st sty ste End bs_e seg_e :
+    cconsts sty = cconsts st -> same_resolve (csym sty) (csym st) ->
+    List.length (ccode sty) = List.length (ccode st) ->
+    LAYL brk eb sty ste bs_e seg_e -> End = N.of_nat (List.length (ccode st)) + N.of_nat (List.length seg_e) ->
+    LAYC brk fin CNil (Else eb) st ste End [] bs_e seg_e
+| layc_cons brk fin c b t els st st1 stx stb sty st' End js bs_b bs_r seg_c seg_b jf je seg_r :
     efrag c = true -> compile_expr true c st = COk st1 -> ccode st1 = ccode st ++ seg_c ->
     cconsts stx = cconsts st1 -> same_resolve (csym stx) (csym st) ->
     N.of_nat (List.length (ccode stx)) = N.of_nat (List.length (ccode st1)) + 3 ->
-    LAYL b stx stb seg_b ->
+    LAYL brk b stx stb bs_b seg_b ->
     jbytes JumpOnFalse (N.of_nat (List.length (ccode st)) + N.of_nat (List.length (seg_c ++ jf ++ seg_b ++ je))) jf ->
-    jbytes Jump (N.of_nat (List.length (ccode st)) + N.of_nat (List.length (seg_c ++ jf ++ seg_b ++ je))) je ->
-    cconsts st' = cconsts stb -> csym st' = csym st ->
-    LAY (SIf c b CNil NoElse) st st' (seg_c ++ jf ++ seg_b ++ je)
-| lay_if_else c b eb st st1 stx stb sty ste st' seg_c seg_b seg_e jf je :
-    efrag c = true -> compile_expr true c st = COk st1 -> ccode st1 = ccode st ++ seg_c ->
-    cconsts stx = cconsts st1 -> same_resolve (csym stx) (csym st) ->
-    N.of_nat (List.length (ccode stx)) = N.of_nat (List.length (ccode st1)) + 3 ->
-    LAYL b stx stb seg_b ->
-    (* the else part starts right after the end jump *)
+    jshape fin End je ->
     cconsts sty = cconsts stb -> same_resolve (csym sty) (csym st) ->
     N.of_nat (List.length (ccode sty)) = N.of_nat (List.length (ccode stb)) + 3 ->
-    LAYL eb sty ste seg_e ->
-    jbytes JumpOnFalse (N.of_nat (List.length (ccode st)) + N.of_nat (List.length (seg_c ++ jf ++ seg_b ++ je))) jf ->
-    jbytes Jump (N.of_nat (List.length (ccode st)) + N.of_nat (List.length (seg_c ++ jf ++ seg_b ++ je ++ seg_e))) je ->
-    cconsts st' = cconsts ste -> csym st' = csym st ->
-    LAY (SIf c b CNil (Else eb)) st st' (seg_c ++ jf ++ seg_b ++ je ++ seg_e)
-with LAYL : slist -> cstate -> cstate -> list N -> Prop :=
-| layl_nil st : LAYL SNil st st []
-| layl_cons s t st st1 st2 seg1 seg2 :
-    LAY s st st1 seg1 ->
-    N.of_nat (List.length (ccode st1)) = N.of_nat (List.length (ccode st)) + N.of_nat (List.length seg1) ->
-    LAYL t st1 st2 seg2 ->
-    LAYL (SCons s t) st st2 (seg1 ++ seg2).
+    LAYC brk fin t els sty st' End js bs_r seg_r ->
+    LAYC brk fin (CCons c b t) els st st' End
+         (Z.of_nat (List.length (ccode st) + List.length (seg_c ++ jf ++ seg_b)) :: js)
+         (bs_b ++ bs_r)
+         (seg_c ++ jf ++ seg_b ++ je ++ seg_r).
 
 Scheme LAY_mind := Induction for LAY Sort Prop
-  with LAYL_mind := Induction for LAYL Sort Prop.
-Combined Scheme LAY_mutind from LAY_mind, LAYL_mind.
+  with LAYL_mind := Induction for LAYL Sort Prop
+  with LAYC_mind := Induction for LAYC Sort Prop.
+Combined Scheme LAY_mutind from LAY_mind, LAYL_mind, LAYC_mind.
 
 (* ---------- machine steps for the two jumps ---------- *)
 Lemma step_jof p vs pre post jf T b rest :
@@ -171,9 +218,22 @@ Lemma efrag_consts e st st1 : efrag e = true -> compile_expr true e st = COk st1
   (exists newc, cconsts st1 = cconsts st ++ newc) /\ csym st1 = csym st.
 Proof. intros HF HC. destruct (efrag_sl e HF st st1 HC) as (A & ops & newc & _ & C & _). split; [eauto|exact A]. Qed.
 
+Ltac chain_consts :=
+  eexists;
+  repeat match goal with H : cconsts ?a = _ |- context [cconsts ?a] => rewrite H end;
+  rewrite <- ?app_assoc; reflexivity.
+Ltac chain_resolve :=
+  let n := fresh "n" in intro n;
+  repeat match goal with
+         | H : same_resolve ?a _ |- context [st_resolve n ?a] => rewrite (H n)
+         | H : csym ?a = _ |- context [csym ?a] => rewrite H
+         end; reflexivity.
+
 Lemma lay_frame :
-  (forall s st st' seg, LAY s st st' seg -> (exists newc, cconsts st' = cconsts st ++ newc) /\ same_resolve (csym st') (csym st)) /\
-  (forall l st st' seg, LAYL l st st' seg -> (exists newc, cconsts st' = cconsts st ++ newc) /\ same_resolve (csym st') (csym st)).
+  (forall brk s st st' bs seg, LAY brk s st st' bs seg -> (exists newc, cconsts st' = cconsts st ++ newc) /\ same_resolve (csym st') (csym st)) /\
+  (forall brk l st st' bs seg, LAYL brk l st st' bs seg -> (exists newc, cconsts st' = cconsts st ++ newc) /\ same_resolve (csym st') (csym st)) /\
+  (forall brk fin l els st st' End js bs seg, LAYC brk fin l els st st' End js bs seg ->
+     (exists newc, cconsts st' = cconsts st ++ newc) /\ same_resolve (csym st') (csym st)).
 Proof.
   apply LAY_mutind; intros;
     repeat match goal with
@@ -181,45 +241,63 @@ Proof.
         let nc := fresh "nc" in let K := fresh "K" in
         destruct (efrag_consts e st st1 HF HC) as [(nc & K) _]; clear HC
     | H : (exists newc, _) /\ _ |- _ => let nb := fresh "nb" in let Kb := fresh "Kb" in let Sb := fresh "Sb" in destruct H as [(nb & Kb) Sb]
-    end.
-  - split; [exists nc; congruence|apply same_resolve_eq; assumption].
-  - split; [exists []; rewrite app_nil_r; reflexivity|apply same_resolve_refl].
-  - split; [exists (nc ++ nb); rewrite app_assoc; congruence|apply same_resolve_eq; assumption].
-  - split; [exists (nc ++ nb); rewrite app_assoc; congruence|apply same_resolve_eq; assumption].
-  - split; [first [exists (nc ++ nb ++ nb0); rewrite !app_assoc; congruence|exists (nc ++ nb0 ++ nb); rewrite !app_assoc; congruence]|apply same_resolve_eq; assumption].
-  - split; [exists []; rewrite app_nil_r; reflexivity|apply same_resolve_refl].
-  - split; [first [exists (nb ++ nb0); rewrite app_assoc; congruence|exists (nb0 ++ nb); rewrite app_assoc; congruence]|].
-    intro n. first [rewrite Sb0, Sb; reflexivity|rewrite Sb, Sb0; reflexivity].
+    end;
+    (split; [first [exists []; rewrite app_nil_r; first [reflexivity|assumption] | chain_consts]
+            |first [apply same_resolve_refl | chain_resolve]]).
 Qed.
 
-Lemma layl_len : forall l st st' seg, LAYL l st st' seg ->
-  N.of_nat (List.length (ccode st')) = N.of_nat (List.length (ccode st)) + N.of_nat (List.length seg).
+Lemma lay_len :
+  (forall brk s st st' bs seg, LAY brk s st st' bs seg -> True) /\
+  (forall brk l st st' bs seg, LAYL brk l st st' bs seg ->
+     N.of_nat (List.length (ccode st')) = N.of_nat (List.length (ccode st)) + N.of_nat (List.length seg)) /\
+  (forall brk fin l els st st' End js bs seg, LAYC brk fin l els st st' End js bs seg ->
+     End = N.of_nat (List.length (ccode st)) + N.of_nat (List.length seg)).
 Proof.
-  apply (LAYL_mind (fun _ _ _ _ _ => True)
-           (fun l st st' seg _ => N.of_nat (List.length (ccode st')) = N.of_nat (List.length (ccode st)) + N.of_nat (List.length seg)));
-    intros; auto.
+  apply LAY_mutind; intros; auto.
   - simpl. lia.
   - rewrite app_length, Nat2N.inj_add. lia.
+  - simpl. lia.
+  - subst End. pose proof (jbytes_len _ _ _ j) as Lj.
+    assert (Lje : List.length je = 3%nat).
+    { destruct fin; cbn [jshape] in j0; [apply (jbytes_len _ _ _ j0)|destruct j0 as (hh & ll & ->); reflexivity]. }
+    apply (f_equal (@List.length N)) in e1. rewrite app_length in e1.
+    rewrite !app_length, Lj, Lje, !Nat2N.inj_add. lia.
 Qed.
+
+Lemma layl_len : forall brk l st st' bs seg, LAYL brk l st st' bs seg ->
+  N.of_nat (List.length (ccode st')) = N.of_nat (List.length (ccode st)) + N.of_nat (List.length seg).
+Proof. apply lay_len. Qed.
 
 (* ---------- the simulation ---------- *)
 Definition mstate_ok (G : nat) (st : cstate) (env : genv) (vs : vmstate) : Prop :=
   ostack vs = [] /\ locals vs = [] /\ globals_hold env (csym st) (globals vs) /\ slots_exist (csym st) (globals vs) /\
   List.length (globals vs) = G.
 
-Definition SIMs (fuel : nat) (s : stmt) (st st' : cstate) (seg : list N) : Prop :=
-  forall G env env', exec_s fuel s env = Some env' -> forall p vs pre post,
+(* where the machine is after a statement: at the break target T if a break
+   is under way, right after the code otherwise *)
+Definition SIMs (fuel : nat) (T : N) (s : stmt) (st st' : cstate) (seg : list N) : Prop :=
+  forall G env env' br, exec_s fuel s env = Some (env', br) -> forall p vs pre post,
     pcode p = pre ++ seg ++ post -> List.length pre = List.length (ccode st) -> consts_of p st' ->
     ip vs = N.of_nat (List.length pre) -> mstate_ok G st env vs ->
     sym_static (csym st) -> slots_distinct (csym st) -> sdepth s <= StackSize ->
-    exists vs', reaches p vs vs' /\ ip vs' = ip vs + N.of_nat (List.length seg) /\ mstate_ok G st env' vs'.
+    exists vs', reaches p vs vs' /\ ip vs' = (if br then T else ip vs + N.of_nat (List.length seg)) /\ mstate_ok G st env' vs'.
 
-Definition SIMl (fuel : nat) (l : slist) (st st' : cstate) (seg : list N) : Prop :=
-  forall G env env', exec_l fuel l env = Some env' -> forall p vs pre post,
+Definition SIMl (fuel : nat) (T : N) (l : slist) (st st' : cstate) (seg : list N) : Prop :=
+  forall G env env' br, exec_l fuel l env = Some (env', br) -> forall p vs pre post,
     pcode p = pre ++ seg ++ post -> List.length pre = List.length (ccode st) -> consts_of p st' ->
     ip vs = N.of_nat (List.length pre) -> mstate_ok G st env vs ->
     sym_static (csym st) -> slots_distinct (csym st) -> ldepth l <= StackSize ->
-    exists vs', reaches p vs vs' /\ ip vs' = ip vs + N.of_nat (List.length seg) /\ mstate_ok G st env' vs'.
+    exists vs', reaches p vs vs' /\ ip vs' = (if br then T else ip vs + N.of_nat (List.length seg)) /\ mstate_ok G st env' vs'.
+
+Definition odepth (els : oslist) : N := match els with NoElse => 0 | Else eb => ldepth eb end.
+
+(* a chain ends at End, whichever block ran *)
+Definition SIMc (fuel : nat) (T : N) (l : clist) (els : oslist) (st st' : cstate) (End : N) (seg : list N) : Prop :=
+  forall G env env' br, exec_c fuel l els env = Some (env', br) -> forall p vs pre post,
+    pcode p = pre ++ seg ++ post -> List.length pre = List.length (ccode st) -> consts_of p st' ->
+    ip vs = N.of_nat (List.length pre) -> mstate_ok G st env vs ->
+    sym_static (csym st) -> slots_distinct (csym st) -> cdepth l <= StackSize -> odepth els <= StackSize ->
+    exists vs', reaches p vs vs' /\ ip vs' = (if br then T else End) /\ mstate_ok G st env' vs'.
 
 Lemma store_global' env n v y sym (g : list value) :
   slots_distinct sym -> st_resolve n sym = Some y -> (N.to_nat (sidx y) < List.length g)%nat ->
@@ -260,15 +338,16 @@ Proof.
 Qed.
 
 Theorem sim_all : forall fuel,
-  (forall s st st' seg, LAY s st st' seg -> SIMs fuel s st st' seg) /\
-  (forall l st st' seg, LAYL l st st' seg -> SIMl fuel l st st' seg).
+  (forall T s st st' bs seg, LAY (Some T) s st st' bs seg -> SIMs fuel T s st st' seg) /\
+  (forall T l st st' bs seg, LAYL (Some T) l st st' bs seg -> SIMl fuel T l st st' seg) /\
+  (forall T l els st st' End js bs seg, LAYC (Some T) true l els st st' End js bs seg -> SIMc fuel T l els st st' End seg).
 Proof.
-  induction fuel as [|f [IHs IHl]].
-  - split; intros; intros G env env' HX; simpl in HX; discriminate.
-  - split.
-    + intros s st st' seg HL. inversion HL; subst; intros G env env' HX p vs pre post HP HLen HK HI HM HSS HSD HDp.
+  induction fuel as [|f (IHs & IHl & IHc)].
+  - repeat split; intros; intros G env env' br HX; simpl in HX; discriminate.
+  - split; [|split].
+    + intros T s st st' bs seg HL. inversion HL; subst; intros G env env' br HX p vs pre post HP HLen HK HI HM HSS HSD HDp.
       * (* assign *)
-        cbn [exec_s] in HX. destruct (eval_expr env e) as [v|] eqn:HE; [|discriminate]. inversion HX; subst env'.
+        cbn [exec_s] in HX. destruct (eval_expr env e) as [v|] eqn:HE; [|discriminate]. inversion HX; subst env' br.
         destruct (efrag_consts e st st1 H H0) as [(nc & K1) S1].
         assert (HK1 : consts_of p st1) by (destruct HK as (more & HK); exists more; rewrite HK, H5; reflexivity).
         cbn [sdepth] in HDp.
@@ -289,9 +368,14 @@ Proof.
            ++ rewrite set_nth_length. exact M5.
       * (* empty *)
         cbn [exec_s] in HX. inversion HX; subst. exists vs. split; [apply reaches_refl|]. split; [simpl; lia|exact HM].
+      * (* break *)
+        cbn [exec_s] in HX. inversion HX; subst env' br. cbn [bshape] in H.
+        pose proof (step_jump p vs pre post seg T H HP HI) as R.
+        eexists. split; [apply reaches_step; exact R|]. split; [reflexivity|].
+        destruct HM as (M1 & M2 & M3 & M4 & M5). unfold mstate_ok; simpl. repeat split; auto.
       * (* while *)
         cbn [exec_s] in HX. cbn [sdepth] in HDp.
-        destruct (lay_frame) as [_ LF]. destruct (LF _ _ _ _ H5) as [(nb & Kb) Sb].
+        destruct (lay_frame) as (_ & LF & _). destruct (LF _ _ _ _ _ _ H5) as [(nb & Kb) Sb].
         destruct (efrag_consts c st st1 H H0) as [(nc & K1) S1].
         assert (HKb : consts_of p stb) by (destruct HK as (more & HK); exists more; rewrite HK, H8; reflexivity).
         assert (HK1 : consts_of p st1).
@@ -299,7 +383,7 @@ Proof.
         pose proof (jbytes_len _ _ _ H6) as Ljf. pose proof (jbytes_len _ _ _ H7) as Ljb.
         destruct (eval_expr env c) as [[| [] | | | | |]|] eqn:HE; try discriminate.
         -- (* true: one more iteration *)
-           destruct (exec_l f b env) as [env1|] eqn:HXb; [|discriminate].
+           destruct (exec_l f b env) as [[env1 brb]|] eqn:HXb; [|discriminate].
            pose proof (expr_runs G c st st1 seg_c env (VBool true) p vs pre (jf ++ seg_b ++ jb ++ post) H H0 H1 HE HSS
                          ltac:(rewrite HP, <- !app_assoc; reflexivity) HK1 HI HM ltac:(lia)) as R1.
            set (vs1 := {| ip := ip vs + N.of_nat (List.length seg_c); ostack := [VBool true]; locals := locals vs; globals := globals vs |}) in *.
@@ -310,7 +394,7 @@ Proof.
            destruct HM as (M1 & M2 & M3 & M4 & M5).
            assert (HM2 : mstate_ok G stx env vs2).
            { apply (mstate_same G st stx); [exact H3|]. unfold vs2, vs1; simpl. repeat split; auto. }
-           destruct (IHl b stx stb seg_b H5 G env env1 HXb p vs2 (pre ++ seg_c ++ jf) (jb ++ post)) as (vs3 & R3 & I3 & HM3).
+           destruct (IHl _ b stx stb _ seg_b H5 G env env1 brb HXb p vs2 (pre ++ seg_c ++ jf) (jb ++ post)) as (vs3 & R3 & I3 & HM3).
            { rewrite HP, <- !app_assoc. reflexivity. }
            { rewrite !app_length, Ljf. apply Nat2N.inj. rewrite H4, H1, app_length, !Nat2N.inj_add, HLen. simpl. lia. }
            { exact HKb. }
@@ -319,20 +403,27 @@ Proof.
            { apply (sym_static_same (csym st)); assumption. }
            { apply (slots_distinct_same (csym st)); assumption. }
            { lia. }
-           pose proof (step_jump p vs3 (pre ++ seg_c ++ jf ++ seg_b) post jb _ H7
+           destruct brb.
+           ++ (* the body broke out: the machine is at the end of the loop *)
+              inversion HX; subst env' br.
+              exists vs3. split; [|split].
+              ** eapply reaches_trans; [exact R1|]. eapply reaches_trans; [apply reaches_step; exact R2|exact R3].
+              ** rewrite I3, HI, HLen. reflexivity.
+              ** apply (mstate_same_back G st stx); [exact H3|exact HM3].
+           ++ pose proof (step_jump p vs3 (pre ++ seg_c ++ jf ++ seg_b) post jb _ H7
                          ltac:(rewrite HP, <- !app_assoc; reflexivity)
                          ltac:(rewrite I3; unfold vs2, vs1; simpl; rewrite HI, !app_length, Ljf; lia)) as R4.
-           set (vs4 := {| ip := N.of_nat (List.length (ccode st)); ostack := ostack vs3; locals := locals vs3; globals := globals vs3 |}) in *.
-           assert (HM4 : mstate_ok G st env1 vs4).
-           { apply (mstate_same_back G st stx); [exact H3|]. destruct HM3 as (A3 & B3 & C3 & D3 & E3). unfold vs4; simpl. repeat split; auto. }
-           destruct (IHs _ _ _ _ HL G env1 env' HX p vs4 pre post HP HLen HK) as (vs5 & R5 & I5 & HM5); auto.
-           { unfold vs4; simpl. rewrite HLen. reflexivity. }
-           exists vs5. split; [|split; [|exact HM5]].
-           ++ eapply reaches_trans; [exact R1|]. eapply reaches_trans; [apply reaches_step; exact R2|].
-              eapply reaches_trans; [exact R3|]. eapply reaches_trans; [apply reaches_step; exact R4|exact R5].
-           ++ rewrite I5. unfold vs4; simpl. rewrite HI, HLen. reflexivity.
+              set (vs4 := {| ip := N.of_nat (List.length (ccode st)); ostack := ostack vs3; locals := locals vs3; globals := globals vs3 |}) in *.
+              assert (HM4 : mstate_ok G st env1 vs4).
+              { apply (mstate_same_back G st stx); [exact H3|]. destruct HM3 as (A3 & B3 & C3 & D3 & E3). unfold vs4; simpl. repeat split; auto. }
+              destruct (IHs _ _ _ _ _ _ HL G env1 env' br HX p vs4 pre post HP HLen HK) as (vs5 & R5 & I5 & HM5); auto.
+              { unfold vs4; simpl. rewrite HLen. reflexivity. }
+              exists vs5. split; [|split; [|exact HM5]].
+              ** eapply reaches_trans; [exact R1|]. eapply reaches_trans; [apply reaches_step; exact R2|].
+                 eapply reaches_trans; [exact R3|]. eapply reaches_trans; [apply reaches_step; exact R4|exact R5].
+              ** rewrite I5. unfold vs4; simpl. rewrite HI, HLen. reflexivity.
         -- (* false: leave the loop *)
-           inversion HX; subst env'.
+           inversion HX; subst env' br.
            pose proof (expr_runs G c st st1 seg_c env (VBool false) p vs pre (jf ++ seg_b ++ jb ++ post) H H0 H1 HE HSS
                          ltac:(rewrite HP, <- !app_assoc; reflexivity) HK1 HI HM ltac:(lia)) as R1.
            set (vs1 := {| ip := ip vs + N.of_nat (List.length seg_c); ostack := [VBool false]; locals := locals vs; globals := globals vs |}) in *.
@@ -342,26 +433,65 @@ Proof.
            eexists. split; [eapply reaches_trans; [exact R1|apply reaches_step; exact R2]|].
            destruct HM as (M1 & M2 & M3 & M4 & M5). split; [simpl; rewrite HI, HLen; reflexivity|].
            unfold mstate_ok, vs1; simpl. repeat split; auto.
-      * (* if without else *)
+      * (* if: the chain *)
         cbn [exec_s] in HX. cbn [sdepth] in HDp.
-        destruct (lay_frame) as [_ LF]. destruct (LF _ _ _ _ H5) as [(nb & Kb) Sb].
+        destruct (IHc _ _ _ _ _ _ _ _ _ H G env env' br HX p vs pre post HP HLen) as (vs' & R & I & HM'); auto.
+        { destruct HK as (more & HK); exists more; rewrite HK, H0; reflexivity. }
+        { cbn [cdepth]. lia. }
+        { unfold odepth. lia. }
+        exists vs'. split; [exact R|]. split; [rewrite I, HI, HLen; reflexivity|exact HM'].
+    + intros T l st st' bs seg HL. inversion HL; subst; intros G env env' br HX p vs pre post HP HLen HK HI HM HSS HSD HDp.
+      * cbn [exec_l] in HX. inversion HX; subst. exists vs. split; [apply reaches_refl|]. split; [simpl; lia|exact HM].
+      * cbn [exec_l] in HX. cbn [ldepth] in HDp.
+        destruct (exec_s f s env) as [[env1 br1]|] eqn:HX1; [|discriminate].
+        destruct (lay_frame) as (LFs & LFl & _). destruct (LFs _ _ _ _ _ _ H) as [(n1 & K1) S1]. destruct (LFl _ _ _ _ _ _ H1) as [(n2 & K2) S2].
+        assert (HK1 : consts_of p st1) by (apply (consts_of_prefix p st1 st' n2 K2 HK)).
+        destruct (IHs _ s st st1 _ seg1 H G env env1 br1 HX1 p vs pre (seg2 ++ post)) as (vs1 & R1 & I1 & HM1); auto.
+        { rewrite HP, <- !app_assoc. reflexivity. }
+        { lia. }
+        destruct br1.
+        -- inversion HX; subst env' br. exists vs1. split; [exact R1|]. split; [exact I1|exact HM1].
+        -- destruct (IHl _ t st1 st' _ seg2 H1 G env1 env' br HX p vs1 (pre ++ seg1) post) as (vs2 & R2 & I2 & HM2).
+           { rewrite HP, <- !app_assoc. reflexivity. }
+           { rewrite app_length. apply Nat2N.inj. rewrite H0, Nat2N.inj_add, HLen. reflexivity. }
+           { exact HK. }
+           { rewrite I1, HI, app_length. lia. }
+           { apply (mstate_same G st st1); [exact S1|exact HM1]. }
+           { apply (sym_static_same (csym st)); assumption. }
+           { apply (slots_distinct_same (csym st)); assumption. }
+           { lia. }
+           exists vs2. split; [eapply reaches_trans; eauto|]. split; [rewrite I2, I1, app_length; destruct br; [reflexivity|lia]|].
+           apply (mstate_same_back G st st1); [exact S1|exact HM2].
+    + intros T l els st st' End js bs seg HL. inversion HL; subst; intros G env env' br HX p vs pre post HP HLen HK HI HM HSS HSD HDp HDo.
+      * (* no more conditions, no else *)
+        cbn [exec_c] in HX. inversion HX; subst. exists vs. split; [apply reaches_refl|]. split; [rewrite HI, HLen; reflexivity|exact HM].
+      * (* the else block *)
+        cbn [exec_c] in HX. unfold odepth in HDo.
+        match goal with HL0 : LAYL _ eb sty st' _ seg |- _ => destruct (IHl _ eb sty st' _ seg HL0 G env env' br HX p vs pre post HP) as (vs3 & R3 & I3 & HM3) end; auto; [congruence|apply (mstate_same G st sty); assumption|apply (sym_static_same (csym st)); assumption|apply (slots_distinct_same (csym st)); assumption|].
+        exists vs3. split; [exact R3|]. split; [rewrite I3, HI, HLen; reflexivity|].
+        apply (mstate_same_back G st sty); assumption.
+      * (* a condition *)
+        cbn [exec_c] in HX. cbn [cdepth] in HDp. cbn [jshape] in H7.
+        destruct (lay_frame) as (_ & LF & LFc). destruct (LF _ _ _ _ _ _ H5) as [(nb & Kb) Sb]. destruct (LFc _ _ _ _ _ _ _ _ _ _ H11) as [(nr & Kr) Sr].
         destruct (efrag_consts c st st1 H H0) as [(nc & K1) S1].
-        assert (HKb : consts_of p stb) by (destruct HK as (more & HK); exists more; rewrite HK, H8; reflexivity).
+        assert (HKb : consts_of p stb).
+        { apply (consts_of_prefix p stb st' nr); [rewrite Kr, H8; reflexivity|exact HK]. }
         assert (HK1 : consts_of p st1).
         { apply (consts_of_prefix p st1 stb nb); [rewrite Kb, H2; reflexivity|exact HKb]. }
         pose proof (jbytes_len _ _ _ H6) as Ljf. pose proof (jbytes_len _ _ _ H7) as Lje.
+        pose proof (layl_len _ _ _ _ _ _ H5) as LLb.
         destruct (eval_expr env c) as [[| [] | | | | |]|] eqn:HE; try discriminate.
-        -- pose proof (expr_runs G c st st1 seg_c env (VBool true) p vs pre (jf ++ seg_b ++ je ++ post) H H0 H1 HE HSS
+        -- pose proof (expr_runs G c st st1 seg_c env (VBool true) p vs pre (jf ++ seg_b ++ je ++ seg_r ++ post) H H0 H1 HE HSS
                          ltac:(rewrite HP, <- !app_assoc; reflexivity) HK1 HI HM ltac:(lia)) as R1.
            set (vs1 := {| ip := ip vs + N.of_nat (List.length seg_c); ostack := [VBool true]; locals := locals vs; globals := globals vs |}) in *.
-           pose proof (step_jof p vs1 (pre ++ seg_c) (seg_b ++ je ++ post) jf _ true [] H6
+           pose proof (step_jof p vs1 (pre ++ seg_c) (seg_b ++ je ++ seg_r ++ post) jf _ true [] H6
                          ltac:(rewrite HP, <- !app_assoc; reflexivity)
                          ltac:(unfold vs1; simpl; rewrite HI, app_length; lia) eq_refl) as R2.
            set (vs2 := {| ip := ip vs1 + 3; ostack := []; locals := locals vs1; globals := globals vs1 |}) in *.
            destruct HM as (M1 & M2 & M3 & M4 & M5).
            assert (HM2 : mstate_ok G stx env vs2).
            { apply (mstate_same G st stx); [exact H3|]. unfold vs2, vs1; simpl. repeat split; auto. }
-           destruct (IHl b stx stb seg_b H5 G env env' HX p vs2 (pre ++ seg_c ++ jf) (je ++ post)) as (vs3 & R3 & I3 & HM3).
+           destruct (IHl _ b stx stb _ seg_b H5 G env env' br HX p vs2 (pre ++ seg_c ++ jf) (je ++ seg_r ++ post)) as (vs3 & R3 & I3 & HM3).
            { rewrite HP, <- !app_assoc. reflexivity. }
            { rewrite !app_length, Ljf. apply Nat2N.inj. rewrite H4, H1, app_length, !Nat2N.inj_add, HLen. simpl. lia. }
            { exact HKb. }
@@ -370,108 +500,45 @@ Proof.
            { apply (sym_static_same (csym st)); assumption. }
            { apply (slots_distinct_same (csym st)); assumption. }
            { lia. }
-           pose proof (step_jump p vs3 (pre ++ seg_c ++ jf ++ seg_b) post je _ H7
+           destruct br.
+           ++ exists vs3. split; [|split].
+              ** eapply reaches_trans; [exact R1|]. eapply reaches_trans; [apply reaches_step; exact R2|exact R3].
+              ** exact I3.
+              ** apply (mstate_same_back G st stx); [exact H3|exact HM3].
+           ++ pose proof (step_jump p vs3 (pre ++ seg_c ++ jf ++ seg_b) (seg_r ++ post) je _ H7
                          ltac:(rewrite HP, <- !app_assoc; reflexivity)
                          ltac:(rewrite I3; unfold vs2, vs1; simpl; rewrite HI, !app_length, Ljf; lia)) as R4.
-           eexists. split; [|split].
-           ++ eapply reaches_trans; [exact R1|]. eapply reaches_trans; [apply reaches_step; exact R2|].
-              eapply reaches_trans; [exact R3|apply reaches_step; exact R4].
-           ++ simpl. rewrite HI, HLen. reflexivity.
-           ++ apply (mstate_same_back G st stx); [exact H3|]. destruct HM3 as (A3 & B3 & C3 & D3 & E3). simpl. repeat split; auto.
-        -- inversion HX; subst env'.
-           pose proof (expr_runs G c st st1 seg_c env (VBool false) p vs pre (jf ++ seg_b ++ je ++ post) H H0 H1 HE HSS
+              eexists. split; [|split].
+              ** eapply reaches_trans; [exact R1|]. eapply reaches_trans; [apply reaches_step; exact R2|].
+                 eapply reaches_trans; [exact R3|apply reaches_step; exact R4].
+              ** reflexivity.
+              ** apply (mstate_same_back G st stx); [exact H3|]. destruct HM3 as (A3 & B3 & C3 & D3 & E3). simpl. repeat split; auto.
+        -- pose proof (expr_runs G c st st1 seg_c env (VBool false) p vs pre (jf ++ seg_b ++ je ++ seg_r ++ post) H H0 H1 HE HSS
                          ltac:(rewrite HP, <- !app_assoc; reflexivity) HK1 HI HM ltac:(lia)) as R1.
            set (vs1 := {| ip := ip vs + N.of_nat (List.length seg_c); ostack := [VBool false]; locals := locals vs; globals := globals vs |}) in *.
-           pose proof (step_jof p vs1 (pre ++ seg_c) (seg_b ++ je ++ post) jf _ false [] H6
-                         ltac:(rewrite HP, <- !app_assoc; reflexivity)
-                         ltac:(unfold vs1; simpl; rewrite HI, app_length; lia) eq_refl) as R2.
-           eexists. split; [eapply reaches_trans; [exact R1|apply reaches_step; exact R2]|].
-           destruct HM as (M1 & M2 & M3 & M4 & M5). split; [simpl; rewrite HI, HLen; reflexivity|].
-           unfold mstate_ok, vs1; simpl. repeat split; auto.
-      * (* if with else *)
-        cbn [exec_s] in HX. cbn [sdepth] in HDp.
-        destruct (lay_frame) as [_ LF]. destruct (LF _ _ _ _ H5) as [(nb & Kb) Sb]. destruct (LF _ _ _ _ H9) as [(ne & Ke) Se].
-        destruct (efrag_consts c st st1 H H0) as [(nc & K1) S1].
-        assert (HKe : consts_of p ste) by (destruct HK as (more & HK); exists more; rewrite HK, H12; reflexivity).
-        assert (HKb : consts_of p stb).
-        { apply (consts_of_prefix p stb ste ne); [rewrite Ke, H6; reflexivity|exact HKe]. }
-        assert (HK1 : consts_of p st1).
-        { apply (consts_of_prefix p st1 stb nb); [rewrite Kb, H2; reflexivity|exact HKb]. }
-        pose proof (jbytes_len _ _ _ H10) as Ljf. pose proof (jbytes_len _ _ _ H11) as Lje.
-        pose proof (layl_len _ _ _ _ H5) as LLb.
-        destruct (eval_expr env c) as [[| [] | | | | |]|] eqn:HE; try discriminate.
-        -- pose proof (expr_runs G c st st1 seg_c env (VBool true) p vs pre (jf ++ seg_b ++ je ++ seg_e ++ post) H H0 H1 HE HSS
-                         ltac:(rewrite HP, <- !app_assoc; reflexivity) HK1 HI HM ltac:(lia)) as R1.
-           set (vs1 := {| ip := ip vs + N.of_nat (List.length seg_c); ostack := [VBool true]; locals := locals vs; globals := globals vs |}) in *.
-           pose proof (step_jof p vs1 (pre ++ seg_c) (seg_b ++ je ++ seg_e ++ post) jf _ true [] H10
-                         ltac:(rewrite HP, <- !app_assoc; reflexivity)
-                         ltac:(unfold vs1; simpl; rewrite HI, app_length; lia) eq_refl) as R2.
-           set (vs2 := {| ip := ip vs1 + 3; ostack := []; locals := locals vs1; globals := globals vs1 |}) in *.
-           destruct HM as (M1 & M2 & M3 & M4 & M5).
-           assert (HM2 : mstate_ok G stx env vs2).
-           { apply (mstate_same G st stx); [exact H3|]. unfold vs2, vs1; simpl. repeat split; auto. }
-           destruct (IHl b stx stb seg_b H5 G env env' HX p vs2 (pre ++ seg_c ++ jf) (je ++ seg_e ++ post)) as (vs3 & R3 & I3 & HM3).
-           { rewrite HP, <- !app_assoc. reflexivity. }
-           { rewrite !app_length, Ljf. apply Nat2N.inj. rewrite H4, H1, app_length, !Nat2N.inj_add, HLen. simpl. lia. }
-           { exact HKb. }
-           { unfold vs2, vs1; simpl. rewrite HI, !app_length, Ljf. lia. }
-           { exact HM2. }
-           { apply (sym_static_same (csym st)); assumption. }
-           { apply (slots_distinct_same (csym st)); assumption. }
-           { lia. }
-           pose proof (step_jump p vs3 (pre ++ seg_c ++ jf ++ seg_b) (seg_e ++ post) je _ H11
-                         ltac:(rewrite HP, <- !app_assoc; reflexivity)
-                         ltac:(rewrite I3; unfold vs2, vs1; simpl; rewrite HI, !app_length, Ljf; lia)) as R4.
-           eexists. split; [|split].
-           ++ eapply reaches_trans; [exact R1|]. eapply reaches_trans; [apply reaches_step; exact R2|].
-              eapply reaches_trans; [exact R3|apply reaches_step; exact R4].
-           ++ simpl. rewrite HI, HLen. reflexivity.
-           ++ apply (mstate_same_back G st stx); [exact H3|]. destruct HM3 as (A3 & B3 & C3 & D3 & E3). simpl. repeat split; auto.
-        -- pose proof (expr_runs G c st st1 seg_c env (VBool false) p vs pre (jf ++ seg_b ++ je ++ seg_e ++ post) H H0 H1 HE HSS
-                         ltac:(rewrite HP, <- !app_assoc; reflexivity) HK1 HI HM ltac:(lia)) as R1.
-           set (vs1 := {| ip := ip vs + N.of_nat (List.length seg_c); ostack := [VBool false]; locals := locals vs; globals := globals vs |}) in *.
-           pose proof (step_jof p vs1 (pre ++ seg_c) (seg_b ++ je ++ seg_e ++ post) jf _ false [] H10
+           pose proof (step_jof p vs1 (pre ++ seg_c) (seg_b ++ je ++ seg_r ++ post) jf _ false [] H6
                          ltac:(rewrite HP, <- !app_assoc; reflexivity)
                          ltac:(unfold vs1; simpl; rewrite HI, app_length; lia) eq_refl) as R2.
            set (vs2 := {| ip := N.of_nat (List.length (ccode st)) + N.of_nat (List.length (seg_c ++ jf ++ seg_b ++ je));
                           ostack := []; locals := locals vs1; globals := globals vs1 |}) in *.
            destruct HM as (M1 & M2 & M3 & M4 & M5).
            assert (HM2 : mstate_ok G sty env vs2).
-           { apply (mstate_same G st sty); [exact H7|]. unfold vs2, vs1; simpl. repeat split; auto. }
-           destruct (IHl eb sty ste seg_e H9 G env env' HX p vs2 (pre ++ seg_c ++ jf ++ seg_b ++ je) post) as (vs3 & R3 & I3 & HM3).
+           { apply (mstate_same G st sty); [exact H9|]. unfold vs2, vs1; simpl. repeat split; auto. }
+           destruct (IHc _ t els sty st' End _ _ seg_r H11 G env env' br HX p vs2 (pre ++ seg_c ++ jf ++ seg_b ++ je) post) as (vs3 & R3 & I3 & HM3).
            { rewrite HP, <- !app_assoc. reflexivity. }
            { assert (X : N.of_nat (List.length (ccode st1)) = N.of_nat (List.length (ccode st)) + N.of_nat (List.length seg_c)) by (rewrite H1, app_length; lia).
              apply Nat2N.inj. rewrite !app_length, Ljf, Lje. lia. }
-           { exact HKe. }
+           { exact HK. }
            { unfold vs2; simpl. rewrite !app_length, HLen. lia. }
            { exact HM2. }
            { apply (sym_static_same (csym st)); assumption. }
            { apply (slots_distinct_same (csym st)); assumption. }
            { lia. }
+           { exact HDo. }
            exists vs3. split; [|split].
            ++ eapply reaches_trans; [exact R1|]. eapply reaches_trans; [apply reaches_step; exact R2|exact R3].
-           ++ rewrite I3. unfold vs2; simpl. rewrite HI, HLen, !app_length, !Nat2N.inj_add. lia.
-           ++ apply (mstate_same_back G st sty); [exact H7|exact HM3].
-    + intros l st st' seg HL. inversion HL; subst; intros G env env' HX p vs pre post HP HLen HK HI HM HSS HSD HDp.
-      * cbn [exec_l] in HX. inversion HX; subst. exists vs. split; [apply reaches_refl|]. split; [simpl; lia|exact HM].
-      * cbn [exec_l] in HX. cbn [ldepth] in HDp.
-        destruct (exec_s f s env) as [env1|] eqn:HX1; [|discriminate].
-        destruct (lay_frame) as [LFs LFl]. destruct (LFs _ _ _ _ H) as [(n1 & K1) S1]. destruct (LFl _ _ _ _ H1) as [(n2 & K2) S2].
-        assert (HK1 : consts_of p st1) by (apply (consts_of_prefix p st1 st' n2 K2 HK)).
-        destruct (IHs s st st1 seg1 H G env env1 HX1 p vs pre (seg2 ++ post)) as (vs1 & R1 & I1 & HM1); auto.
-        { rewrite HP, <- !app_assoc. reflexivity. }
-        { lia. }
-        destruct (IHl t st1 st' seg2 H1 G env1 env' HX p vs1 (pre ++ seg1) post) as (vs2 & R2 & I2 & HM2).
-        { rewrite HP, <- !app_assoc. reflexivity. }
-        { rewrite app_length. apply Nat2N.inj. rewrite H0, Nat2N.inj_add, HLen. reflexivity. }
-        { exact HK. }
-        { rewrite I1, HI, app_length. lia. }
-        { apply (mstate_same G st st1); [exact S1|exact HM1]. }
-        { apply (sym_static_same (csym st)); assumption. }
-        { apply (slots_distinct_same (csym st)); assumption. }
-        { lia. }
-        exists vs2. split; [eapply reaches_trans; eauto|]. split; [rewrite I2, I1, app_length; lia|].
-        apply (mstate_same_back G st st1); [exact S1|exact HM2].
+           ++ exact I3.
+           ++ apply (mstate_same_back G st sty); [exact H9|exact HM3].
 Qed.
 
 (* ====================================================================== *)
@@ -481,12 +548,16 @@ Fixpoint wfrag_stmt (s : stmt) : bool :=
   match s with
   | SAssign (EVar _) e => efrag e
   | SEmpty => true
-  | SIf c b CNil els => efrag c && wfrag_slist b && match els with NoElse => true | Else eb => wfrag_slist eb end
+  | SBreak => true
+  | SIf c b elifs els =>
+      efrag c && wfrag_slist b && wfrag_clist elifs && match els with NoElse => true | Else eb => wfrag_slist eb end
   | SWhile c b => efrag c && wfrag_slist b
   | _ => false
   end
 with wfrag_slist (l : slist) : bool :=
-  match l with SNil => true | SCons s t => wfrag_stmt s && wfrag_slist t end.
+  match l with SNil => true | SCons s t => wfrag_stmt s && wfrag_slist t end
+with wfrag_clist (l : clist) : bool :=
+  match l with CNil => true | CCons c b t => efrag c && wfrag_slist b && wfrag_clist t end.
 
 Lemma patch_bytes pre a h l rest T s s' :
   ccode s = pre ++ a :: h :: l :: rest ->
@@ -521,10 +592,80 @@ Proof.
   exists [N_of_opc Jump; hi; lo]. split; [exists hi, lo; auto|reflexivity].
 Qed.
 
+Lemma patch_all_nil T s : patch_all true [] T s = COk s.
+Proof. reflexivity. Qed.
+
+Lemma patch_all_app a b T s : patch_all true (a ++ b) T s = patch_all true a T s >>= patch_all true b T.
+Proof.
+  unfold patch_all. rewrite fold_left_app.
+  destruct (fold_left (fun r p => r >>= patch true p T) a (COk s)) as [s1|e]; [reflexivity|]. cbn [bind]. apply fold_cerr.
+Qed.
+
+(* compileWhileStatement patches c.breaks: the pending break jumps of the body
+   get their target; nothing else changes *)
+Definition PATCHED (T : Z) (bs : list Z) (st : cstate) (seg : list N) (K : list N -> Prop) : Prop :=
+  forall x x' pre post, ccode x = pre ++ seg ++ post -> List.length pre = List.length (ccode st) ->
+    patch_all true bs T x = COk x' ->
+    exists seg', ccode x' = pre ++ seg' ++ post /\ cconsts x' = cconsts x /\ csym x' = csym x /\ cbreaks x' = cbreaks x /\
+      List.length seg' = List.length seg /\ K seg'.
+
+Lemma lay_brk_patch T :
+  (forall brk s st st' bs seg, LAY brk s st st' bs seg -> brk = None ->
+     PATCHED T bs st seg (fun seg' => LAY (Some (Z.to_N T)) s st st' bs seg')) /\
+  (forall brk l st st' bs seg, LAYL brk l st st' bs seg -> brk = None ->
+     PATCHED T bs st seg (fun seg' => LAYL (Some (Z.to_N T)) l st st' bs seg')) /\
+  (forall brk fin l els st st' End js bs seg, LAYC brk fin l els st st' End js bs seg -> brk = None ->
+     PATCHED T bs st seg (fun seg' => LAYC (Some (Z.to_N T)) fin l els st st' End js bs seg')).
+Proof.
+  apply LAY_mutind; intros; subst brk; intros x x' pre post HC HLen HP.
+  - rewrite patch_all_nil in HP. inversion HP; subst x'. eexists. repeat split; eauto. eapply lay_assign; eauto.
+  - rewrite patch_all_nil in HP. inversion HP; subst x'. eexists. repeat split; eauto. constructor.
+  - cbn [bshape] in b. destruct b as (h0 & l0 & ->).
+    unfold patch_all in HP. cbn [fold_left bind] in HP. rewrite <- HLen in HP.
+    destruct (patch_bytes pre _ h0 l0 post T x x' HC HP) as (HT & hi & lo & EH & ->).
+    exists [N_of_opc Jump; hi; lo]. cbn [ccode cconsts csym cbreaks]. repeat split; auto.
+    apply lay_break; auto. exists hi, lo. auto.
+  - rewrite patch_all_nil in HP. inversion HP; subst x'. eexists. repeat split; eauto. eapply lay_while; eauto.
+  - destruct (H eq_refl x x' pre post HC HLen HP) as (seg' & C' & K' & S' & B' & L' & LY).
+    exists seg'. repeat split; auto. eapply lay_if; eauto. rewrite L'. exact LY.
+  - rewrite patch_all_nil in HP. inversion HP; subst x'. exists []. repeat split; auto. constructor.
+  - rewrite patch_all_app in HP. destruct (patch_all true bs1 T x) as [x1|] eqn:E1; [|discriminate]. cbn [bind] in HP.
+    destruct (H eq_refl x x1 pre (seg2 ++ post)) as (seg1' & C1 & K1 & S1 & B1 & L1 & LY1); auto.
+    { rewrite HC, <- app_assoc. reflexivity. }
+    destruct (H0 eq_refl x1 x' (pre ++ seg1') post) as (seg2' & C2 & K2 & S2 & B2 & L2 & LY2); auto.
+    { rewrite C1, <- app_assoc. reflexivity. }
+    { apply Nat2N.inj. rewrite app_length, L1, e, Nat2N.inj_add, HLen. reflexivity. }
+    exists (seg1' ++ seg2'). split; [rewrite C2, <- !app_assoc; reflexivity|].
+    split; [congruence|]. split; [congruence|]. split; [congruence|]. split; [rewrite !app_length; congruence|].
+    eapply layl_cons; eauto. rewrite L1. exact e.
+  - rewrite patch_all_nil in HP. inversion HP; subst x'. exists []. repeat split; auto. constructor; assumption.
+  - destruct (H eq_refl x x' pre post HC) as (seg' & C' & K' & S' & B' & L' & LY); auto; [congruence|].
+    exists seg'. repeat split; auto. eapply layc_nil_else; eauto. rewrite L'. assumption.
+  - rewrite patch_all_app in HP. destruct (patch_all true bs_b T x) as [x1|] eqn:E1; [|discriminate]. cbn [bind] in HP.
+    pose proof (jbytes_len _ _ _ j) as Ljf.
+    pose proof (f_equal (@List.length N) e1) as L1. rewrite app_length in L1.
+    pose proof (layl_len _ _ _ _ _ _ l) as LLb.
+    destruct (H eq_refl x x1 (pre ++ seg_c ++ jf) (je ++ seg_r ++ post)) as (seg_b' & C1 & K1 & S1 & B1 & Lb & LY1); auto.
+    { rewrite HC, <- !app_assoc. reflexivity. }
+    { apply Nat2N.inj. rewrite !app_length, Ljf. lia. }
+    destruct (H0 eq_refl x1 x' (pre ++ seg_c ++ jf ++ seg_b' ++ je) post) as (seg_r' & C2 & K2 & S2 & B2 & Lr & LY2); auto.
+    { rewrite C1, <- !app_assoc. reflexivity. }
+    { assert (Lje : List.length je = 3%nat).
+      { destruct fin; cbn [jshape] in j0; [apply (jbytes_len _ _ _ j0)|destruct j0 as (hh & ll & ->); reflexivity]. }
+      apply Nat2N.inj. rewrite !app_length, Ljf, Lje, Lb. lia. }
+    exists (seg_c ++ jf ++ seg_b' ++ je ++ seg_r'). split; [rewrite C2, <- !app_assoc; reflexivity|].
+    split; [congruence|]. split; [congruence|]. split; [congruence|]. split; [rewrite !app_length; congruence|].
+    replace (List.length (ccode st) + List.length (seg_c ++ jf ++ seg_b))%nat
+      with (List.length (ccode st) + List.length (seg_c ++ jf ++ seg_b'))%nat by (rewrite !app_length, Lb; reflexivity).
+    eapply layc_cons; eauto.
+    replace (List.length (seg_c ++ jf ++ seg_b' ++ je)) with (List.length (seg_c ++ jf ++ seg_b ++ je)) by (rewrite !app_length, Lb; reflexivity).
+    exact j.
+Qed.
+
 Definition LAYOK (s : stmt) (st st' : cstate) : Prop :=
-  exists seg, LAY s st st' seg /\ ccode st' = ccode st ++ seg /\ cbreaks st' = cbreaks st /\ csym st' = csym st.
+  exists bs seg, LAY None s st st' bs seg /\ ccode st' = ccode st ++ seg /\ cbreaks st' = cbreaks st ++ bs /\ csym st' = csym st.
 Definition LAYLOK (l : slist) (st st' : cstate) : Prop :=
-  exists seg, LAYL l st st' seg /\ ccode st' = ccode st ++ seg /\ cbreaks st' = cbreaks st /\ csym st' = csym st.
+  exists bs seg, LAYL None l st st' bs seg /\ ccode st' = ccode st ++ seg /\ cbreaks st' = cbreaks st ++ bs /\ csym st' = csym st.
 
 Definition slist_lay (l : slist) : Prop :=
   forall st st', body_of true l st = COk st' -> gsym (csym st) -> has_gb (csym st) -> LAYLOK l st st'.
@@ -541,33 +682,41 @@ Proof.
   destruct (st_resolve n (csym st1)) as [y|] eqn:ER; [|discriminate]. rewrite S1 in ER.
   destruct (HG0 n y ER) as [SG _].
   destruct (emit_setglobal_run y st1 st' HC SG) as (E1' & E2' & hi & lo & E3' & E4').
-  exists (encode ops ++ [N_of_opc SetGlobal; hi; lo]). split; [|split; [|split]].
+  exists [], (encode ops ++ [N_of_opc SetGlobal; hi; lo]). split; [|split; [|split]].
   - eapply lay_assign; eauto; [exists hi, lo; auto|congruence].
   - rewrite E3', C, app_assoc. reflexivity.
-  - unfold emit_set_var in HC. rewrite SG in HC. apply emit_breaks in HC. rewrite HC. apply (efrag_breaks e HF _ _ E1).
+  - unfold emit_set_var in HC. rewrite SG in HC. apply emit_breaks in HC. rewrite HC, app_nil_r. apply (efrag_breaks e HF _ _ E1).
   - congruence.
+Qed.
+
+(* compileBreakStatement: a jump with the placeholder, its position appended to c.breaks *)
+Lemma lay_break_ok st st' : compile_stmt true SBreak st = COk st' -> LAYOK SBreak st st'.
+Proof.
+  intro HC. cbn [compile_stmt] in HC.
+  destruct (emit true Jump [JumpPlaceholderZ] st) as [st1|] eqn:E1; [|discriminate]. cbn [bind] in HC.
+  apply emit_hole_bytes in E1; [|reflexivity]. destruct E1 as (h0 & l0 & ->). inversion HC; subst st'; clear HC.
+  cbn [with_breaks ccode cconsts csym cbreaks].
+  exists [pos_of st], [N_of_opc Jump; h0; l0]. split; [|split; [|split]]; try reflexivity.
+  unfold pos_of. apply lay_break; [exists h0, l0; reflexivity|reflexivity|reflexivity].
 Qed.
 
 (* a block body compiled between enterScope and leaveScope *)
 Lemma lay_block b st st' : slist_lay b -> compile_block true b st = COk st' -> gsym (csym st) -> has_gb (csym st) ->
-  exists stx stb seg, LAYL b stx stb seg /\
+  exists stx stb bs seg, LAYL None b stx stb bs seg /\
     cconsts stx = cconsts st /\ same_resolve (csym stx) (csym st) /\ ccode stx = ccode st /\
     ccode st' = ccode st ++ seg /\ ccode stb = ccode st' /\ cconsts st' = cconsts stb /\
-    cbreaks st' = cbreaks st /\ csym st' = csym st.
+    cbreaks st' = cbreaks st ++ bs /\ csym st' = csym st.
 Proof.
   intros HB HC HG HGB. rewrite compile_block_body in HC.
   destruct (body_of true b (with_sym (st_push (csym st)) st)) as [st3|] eqn:E; [|discriminate]. cbn [bind] in HC.
   inversion HC; subst st'; clear HC.
-  destruct (HB _ _ E) as (seg & L & C & B & S); cbn [with_sym csym]; [apply gsym_push; exact HG|apply has_gb_push; exact HGB|].
+  destruct (HB _ _ E) as (bs & seg & L & C & B & S); cbn [with_sym csym]; [apply gsym_push; exact HG|apply has_gb_push; exact HGB|].
   cbn [with_sym ccode cconsts csym cbreaks] in *.
-  exists (with_sym (st_push (csym st)) st), st3, seg. cbn [with_sym ccode cconsts csym cbreaks].
+  exists (with_sym (st_push (csym st)) st), st3, bs, seg. cbn [with_sym ccode cconsts csym cbreaks].
   split; [exact L|]. split; [reflexivity|]. split; [apply same_resolve_push|]. split; [reflexivity|].
   split; [exact C|]. split; [reflexivity|]. split; [reflexivity|]. split; [exact B|].
   rewrite S. apply pop_push_id. exact HG.
 Qed.
-
-Lemma patch_all_nil T s : patch_all true [] T s = COk s.
-Proof. reflexivity. Qed.
 
 Lemma lay_while_ok c b st st' : efrag c = true -> slist_lay b ->
   compile_stmt true (SWhile c b) st = COk st' -> gsym (csym st) -> has_gb (csym st) -> LAYOK (SWhile c b) st st'.
@@ -583,127 +732,204 @@ Proof.
   destruct (efrag_sl c HF st st1 E1) as (S1 & ops & newc & C & K & _).
   pose proof (efrag_breaks c HF _ _ E1) as B1.
   apply emit_hole_bytes in E2; [|reflexivity]. destruct E2 as (h0 & l0 & ->).
-  destruct (lay_block b _ stb HB E3) as (stx & stbb & seg_b & L & Kx & Sx & Cx & Cb & Cbb & Kb & Bb & Sb);
+  destruct (lay_block b _ stb HB E3) as (stx & stbb & bs_b & seg_b & L & Kx & Sx & Cx & Cb & Cbb & Kb & Bb & Sb);
     cbn [with_breaks csym]; [rewrite S1; exact HG|rewrite S1; exact HGB|].
-  cbn [with_breaks ccode cconsts csym cbreaks] in Kx, Sx, Cx, Cb, Bb, Sb.
+  cbn [with_breaks ccode cconsts csym cbreaks app] in Kx, Sx, Cx, Cb, Bb, Sb.
   apply emit_jump_bytes in E4. destruct E4 as (jb & HJB & ->).
-  cbn [cbreaks] in E6. rewrite Bb in E6. rewrite patch_all_nil in E6. inversion E6; subst st5; clear E6.
+  cbn [cbreaks] in E6. rewrite Bb in E6.
   assert (C3 : ccode stb ++ jb = ccode st1 ++ N_of_opc JumpOnFalse :: h0 :: l0 :: (seg_b ++ jb)).
   { rewrite Cb, <- !app_assoc. reflexivity. }
   unfold pos_of at 1 in E5.
   match type of E5 with patch _ _ ?T0 ?s0 = _ =>
     destruct (patch_bytes (ccode st1) _ h0 l0 (seg_b ++ jb) T0 s0 st4 C3 E5) as (HT & hi & lo & EH & ->) end.
-  cbn [with_breaks ccode cconsts csym cbreaks].
+  cbn [with_breaks ccode cconsts csym cbreaks] in E6 |- *.
   set (jf := [N_of_opc JumpOnFalse; hi; lo]).
-  exists (encode ops ++ jf ++ seg_b ++ jb).
-  assert (LEN : N.of_nat (List.length (ccode st)) + N.of_nat (List.length (encode ops ++ jf ++ seg_b ++ jb)) = hi * 256 + lo).
-  { rewrite EH. unfold pos_of. cbn [ccode]. rewrite C3, C. pose proof (jbytes_len _ _ _ HJB).
+  pose proof (jbytes_len _ _ _ HJB) as Ljb.
+  match type of E6 with patch_all _ _ ?T0 ?x = _ =>
+    destruct (proj1 (proj2 (lay_brk_patch T0)) _ _ _ _ _ _ L eq_refl x st5 (ccode st1 ++ jf) jb) as (seg_b' & C5 & K5 & S5 & B5 & L5 & LY5);
+      [cbn [ccode]; unfold jf; rewrite <- !app_assoc; reflexivity
+      |rewrite Cx, !app_length; reflexivity
+      |exact E6|] end.
+  cbn [ccode cconsts csym cbreaks] in C5, K5, S5, B5.
+  exists [], (encode ops ++ jf ++ seg_b' ++ jb).
+  assert (LEN : N.of_nat (List.length (ccode st)) + N.of_nat (List.length (encode ops ++ jf ++ seg_b' ++ jb)) = hi * 256 + lo).
+  { rewrite EH. unfold pos_of. cbn [ccode]. rewrite C3, C.
     rewrite ?app_length; simpl List.length; rewrite ?app_length; simpl List.length; lia. }
+  match type of LY5 with LAYL (Some ?X) _ _ _ _ _ => replace X with (N.of_nat (List.length (ccode st)) + N.of_nat (List.length (encode ops ++ jf ++ seg_b' ++ jb))) in LY5 by (rewrite LEN, EH; reflexivity) end.
   split; [|split; [|split]].
   - assert (F4 : cconsts stx = cconsts st1) by (rewrite Kx; reflexivity).
     assert (F5 : same_resolve (csym stx) (csym st)) by (intro n; rewrite Sx, S1; reflexivity).
     assert (F6 : N.of_nat (List.length (ccode stx)) = N.of_nat (List.length (ccode st1)) + 3) by (rewrite Cx, app_length; simpl; lia).
-    assert (F8 : jbytes JumpOnFalse (N.of_nat (List.length (ccode st)) + N.of_nat (List.length (encode ops ++ jf ++ seg_b ++ jb))) jf)
+    assert (F8 : jbytes JumpOnFalse (N.of_nat (List.length (ccode st)) + N.of_nat (List.length (encode ops ++ jf ++ seg_b' ++ jb))) jf)
       by (exists hi, lo; split; [reflexivity|rewrite LEN; reflexivity]).
     assert (F9 : jbytes Jump (N.of_nat (List.length (ccode st))) jb) by (rewrite pos_pcof, N2Z.id in HJB; exact HJB).
-    refine (lay_while c b st st1 stx stbb _ (encode ops) seg_b jf jb HF E1 C F4 F5 F6 L F8 F9 _ _).
-    + cbn [cconsts]. exact Kb.
-    + cbn [csym]. rewrite Sb. exact S1.
-  - rewrite C. unfold jf. rewrite <- !app_assoc. reflexivity.
-  - exact B1.
-  - rewrite Sb. exact S1.
+    refine (lay_while None c b st st1 stx stbb _ bs_b (encode ops) seg_b' jf jb HF E1 C F4 F5 F6 LY5 F8 F9 _ _).
+    + cbn [with_breaks cconsts]. rewrite K5. exact Kb.
+    + cbn [with_breaks csym]. rewrite S5, Sb. exact S1.
+  - cbn [with_breaks ccode]. rewrite C5, C. unfold jf. rewrite <- !app_assoc. reflexivity.
+  - cbn [with_breaks cbreaks]. rewrite app_nil_r. exact B1.
+  - cbn [with_breaks csym]. rewrite S5, Sb. exact S1.
 Qed.
 
-Lemma lay_if_ok c b els st st' : efrag c = true -> slist_lay b ->
-  (match els with NoElse => True | Else eb => slist_lay eb end) ->
-  compile_stmt true (SIf c b CNil els) st = COk st' -> gsym (csym st) -> has_gb (csym st) ->
-  LAYOK (SIf c b CNil els) st st'.
+(* one `cond / block` (compileConditionalBlock): a builder for the head of a
+   chain whose end jump still holds the placeholder *)
+Lemma cond_lay c b st st1 : efrag c = true -> slist_lay b ->
+  compile_cond true c b st = COk st1 -> gsym (csym st) -> has_gb (csym st) ->
+  csym st1 = csym st /\
+  exists bs_h segh, cbreaks st1 = cbreaks st ++ bs_h /\ ccode st1 = ccode st ++ segh /\
+    forall t els st' End js bs_r seg_r, LAYC None false t els st1 st' End js bs_r seg_r ->
+      LAYC None false (CCons c b t) els st st' End ((pos_of st1 - 3)%Z :: js) (bs_h ++ bs_r) (segh ++ seg_r).
 Proof.
-  intros HF HB HE HC HG HGB. cbn [compile_stmt compile_elifs] in HC. rewrite compile_cond_body in HC.
-  destruct (compile_expr true c st) as [st1|] eqn:E1; [|discriminate]. cbn [bind] in HC.
-  destruct (emit true JumpOnFalse [JumpPlaceholderZ] st1) as [st2|] eqn:E2; [|discriminate]. cbn [bind] in HC.
+  intros HF HB HC HG HGB. rewrite compile_cond_body in HC.
+  destruct (compile_expr true c st) as [ste|] eqn:E1; [|discriminate]. cbn [bind] in HC.
+  destruct (emit true JumpOnFalse [JumpPlaceholderZ] ste) as [st2|] eqn:E2; [|discriminate]. cbn [bind] in HC.
   destruct (body_of true b (with_sym (st_push (csym st2)) st2)) as [st3|] eqn:E3; [|discriminate]. cbn [bind] in HC.
   destruct (emit true Jump [JumpPlaceholderZ] (with_sym (st_pop (csym st3)) st3)) as [st4|] eqn:E4; [|discriminate]. cbn [bind] in HC.
-  destruct (patch true (pos_of st1) (pos_of st4) st4) as [st5|] eqn:E5; [|discriminate]. cbn [bind] in HC.
-  destruct (efrag_sl c HF st st1 E1) as (S1 & ops & newc & C & K & _).
+  rename HC into E5.
+  destruct (efrag_sl c HF st ste E1) as (S1 & ops & newc & C & K & _).
   pose proof (efrag_breaks c HF _ _ E1) as B1.
   apply emit_hole_bytes in E2; [|reflexivity]. destruct E2 as (h0 & l0 & ->). cbn [csym] in E3.
-  destruct (HB _ _ E3) as (seg_b & L & Cb & Bb & Sb); cbn [with_sym csym];
+  destruct (HB _ _ E3) as (bs_b & seg_b & L & Cb & Bb & Sb); cbn [with_sym csym];
     [apply gsym_push; rewrite S1; exact HG|apply has_gb_push; rewrite S1; exact HGB|].
   cbn [with_sym ccode cconsts csym cbreaks] in Cb, Bb, Sb.
   apply emit_hole_bytes in E4; [|reflexivity]. destruct E4 as (h1 & l1 & ->). cbn [with_sym ccode cconsts csym cbreaks] in *.
-  assert (C4 : ccode st3 ++ [N_of_opc Jump; h1; l1] = ccode st1 ++ N_of_opc JumpOnFalse :: h0 :: l0 :: (seg_b ++ [N_of_opc Jump; h1; l1])).
+  assert (C4 : ccode st3 ++ [N_of_opc Jump; h1; l1] = ccode ste ++ N_of_opc JumpOnFalse :: h0 :: l0 :: (seg_b ++ [N_of_opc Jump; h1; l1])).
   { rewrite Cb, <- !app_assoc. reflexivity. }
   unfold pos_of at 1 in E5.
   match type of E5 with patch _ _ ?T0 ?s0 = _ =>
-    destruct (patch_bytes (ccode st1) _ h0 l0 (seg_b ++ [N_of_opc Jump; h1; l1]) T0 s0 st5 C4 E5) as (HT & hi & lo & EH & ->) end.
-  cbn [ccode cconsts csym cbreaks] in HC.
+    destruct (patch_bytes (ccode ste) _ h0 l0 (seg_b ++ [N_of_opc Jump; h1; l1]) T0 s0 st1 C4 E5) as (HT & hi & lo & EH & ->) end.
+  cbn [ccode cconsts csym cbreaks].
   set (jf := [N_of_opc JumpOnFalse; hi; lo]) in *.
-  set (stc := {| ccode := ccode st1 ++ N_of_opc JumpOnFalse :: hi :: lo :: seg_b ++ [N_of_opc Jump; h1; l1];
+  set (je := [N_of_opc Jump; h1; l1]) in *.
+  set (stc := {| ccode := ccode ste ++ N_of_opc JumpOnFalse :: hi :: lo :: seg_b ++ je;
                  cconsts := cconsts st3; csym := st_pop (csym st3); cbreaks := cbreaks st3 |}) in *.
   assert (Sc : csym stc = csym st) by (unfold stc; cbn [csym]; rewrite Sb, S1; apply pop_push_id; exact HG).
-  assert (EJ : (pos_of stc - 3)%Z = Z.of_nat (List.length (ccode st1 ++ jf ++ seg_b))).
-  { unfold pos_of, stc, jf. cbn [ccode]. rewrite ?app_length; simpl List.length; rewrite ?app_length; simpl List.length; lia. }
-  assert (JFT : N.of_nat (List.length (ccode st)) + N.of_nat (List.length (encode ops ++ jf ++ seg_b ++ [N_of_opc Jump; h1; l1])) = hi * 256 + lo).
-  { rewrite EH. unfold pos_of. cbn [ccode]. rewrite C4, C. rewrite ?app_length; simpl List.length; rewrite ?app_length; simpl List.length; lia. }
-  destruct els as [|eb].
-  - (* no else *)
-    cbn [bind] in HC. unfold patch_all in HC. cbn [fold_left bind] in HC. rewrite EJ in HC.
-    assert (CC : ccode stc = (ccode st1 ++ jf ++ seg_b) ++ N_of_opc Jump :: h1 :: l1 :: []).
-    { unfold stc, jf. cbn [ccode]. rewrite <- !app_assoc. reflexivity. }
-    match type of HC with patch _ _ ?T0 ?s0 = _ =>
-      destruct (patch_bytes _ _ h1 l1 [] T0 s0 st' CC HC) as (HT2 & hj & lj & EH2 & ->) end.
-    set (je := [N_of_opc Jump; hj; lj]).
-    exists (encode ops ++ jf ++ seg_b ++ je).
-    assert (LEN : N.of_nat (List.length (ccode st)) + N.of_nat (List.length (encode ops ++ jf ++ seg_b ++ je)) = hj * 256 + lj).
-    { rewrite EH2. unfold pos_of. rewrite CC, C. rewrite ?app_length; simpl List.length; rewrite ?app_length; simpl List.length; lia. }
-    split; [|split; [|split]].
-    + set (stx := {| ccode := ccode st1 ++ [N_of_opc JumpOnFalse; h0; l0]; cconsts := cconsts st1; csym := st_push (csym st1); cbreaks := cbreaks st1 |}) in *.
-      assert (F4 : cconsts stx = cconsts st1) by reflexivity.
-      assert (F5 : same_resolve (csym stx) (csym st)) by (intro n; unfold stx; cbn [csym]; rewrite resolve_push, S1; reflexivity).
-      assert (F6 : N.of_nat (List.length (ccode stx)) = N.of_nat (List.length (ccode st1)) + 3) by (unfold stx; cbn [ccode]; rewrite app_length; simpl; lia).
-      assert (F8 : jbytes JumpOnFalse (N.of_nat (List.length (ccode st)) + N.of_nat (List.length (encode ops ++ jf ++ seg_b ++ je))) jf).
-      { exists hi, lo. split; [reflexivity|]. rewrite <- JFT. unfold je. rewrite !app_length. reflexivity. }
-      assert (F9 : jbytes Jump (N.of_nat (List.length (ccode st)) + N.of_nat (List.length (encode ops ++ jf ++ seg_b ++ je))) je)
-        by (exists hj, lj; split; [reflexivity|rewrite LEN; reflexivity]).
-      refine (lay_if_noelse c b st st1 stx st3 _ (encode ops) seg_b jf je HF E1 C F4 F5 F6 L F8 F9 _ _).
-      * reflexivity.
-      * cbn [csym]. exact Sc.
-    + cbn [ccode]. rewrite C. unfold jf, je. rewrite <- !app_assoc. reflexivity.
-    + cbn [cbreaks]. unfold stc. cbn [cbreaks]. rewrite Bb. exact B1.
-    + cbn [csym]. exact Sc.
-  - (* else *)
-    destruct (compile_block true eb stc) as [ste|] eqn:E6; [|discriminate]. cbn [bind] in HC.
-    destruct (lay_block eb stc ste HE E6) as (sty & stee & seg_e & Le & Ky & Sy & Cy & Ce & Cee & Ke & Be & Se);
-      [rewrite Sc; exact HG|rewrite Sc; exact HGB|].
-    unfold patch_all in HC. cbn [fold_left bind] in HC. rewrite EJ in HC.
-    assert (CC : ccode ste = (ccode st1 ++ jf ++ seg_b) ++ N_of_opc Jump :: h1 :: l1 :: seg_e).
-    { rewrite Ce. unfold stc, jf. cbn [ccode]. rewrite <- ?app_assoc. cbn [app]. rewrite <- ?app_assoc. cbn [app]. reflexivity. }
-    match type of HC with patch _ _ ?T0 ?s0 = _ =>
-      destruct (patch_bytes _ _ h1 l1 seg_e T0 s0 st' CC HC) as (HT2 & hj & lj & EH2 & ->) end.
-    set (je := [N_of_opc Jump; hj; lj]).
-    exists (encode ops ++ jf ++ seg_b ++ je ++ seg_e).
-    assert (LEN : N.of_nat (List.length (ccode st)) + N.of_nat (List.length (encode ops ++ jf ++ seg_b ++ je ++ seg_e)) = hj * 256 + lj).
-    { rewrite EH2. unfold pos_of. rewrite CC, C. rewrite ?app_length; simpl List.length; rewrite ?app_length; simpl List.length; lia. }
-    split; [|split; [|split]].
-    + set (stx := {| ccode := ccode st1 ++ [N_of_opc JumpOnFalse; h0; l0]; cconsts := cconsts st1; csym := st_push (csym st1); cbreaks := cbreaks st1 |}) in *.
-      assert (F4 : cconsts stx = cconsts st1) by reflexivity.
-      assert (F5 : same_resolve (csym stx) (csym st)) by (intro n; unfold stx; cbn [csym]; rewrite resolve_push, S1; reflexivity).
-      assert (F6 : N.of_nat (List.length (ccode stx)) = N.of_nat (List.length (ccode st1)) + 3) by (unfold stx; cbn [ccode]; rewrite app_length; simpl; lia).
-      assert (G1 : cconsts sty = cconsts st3) by (rewrite Ky; unfold stc; reflexivity).
-      assert (G2 : same_resolve (csym sty) (csym st)) by (intro n; rewrite Sy, Sc; reflexivity).
-      assert (G3 : N.of_nat (List.length (ccode sty)) = N.of_nat (List.length (ccode st3)) + 3).
-      { rewrite Cy. unfold stc. cbn [ccode]. rewrite Cb. unfold stx. cbn [ccode]. rewrite ?app_length; simpl List.length; rewrite ?app_length; simpl List.length; lia. }
-      assert (F8 : jbytes JumpOnFalse (N.of_nat (List.length (ccode st)) + N.of_nat (List.length (encode ops ++ jf ++ seg_b ++ je))) jf).
-      { exists hi, lo. split; [reflexivity|]. rewrite <- JFT. unfold je. rewrite !app_length. reflexivity. }
-      assert (F9 : jbytes Jump (N.of_nat (List.length (ccode st)) + N.of_nat (List.length (encode ops ++ jf ++ seg_b ++ je ++ seg_e))) je)
-        by (exists hj, lj; split; [reflexivity|rewrite LEN; reflexivity]).
-      refine (lay_if_else c b eb st st1 stx st3 sty stee _ (encode ops) seg_b seg_e jf je HF E1 C F4 F5 F6 L G1 G2 G3 Le F8 F9 _ _).
-      * cbn [cconsts]. exact Ke.
-      * cbn [csym]. rewrite Se. exact Sc.
-    + cbn [ccode]. rewrite C. unfold jf, je. rewrite <- !app_assoc. reflexivity.
-    + cbn [cbreaks]. rewrite Be. unfold stc. cbn [cbreaks]. rewrite Bb. exact B1.
-    + cbn [csym]. rewrite Se. exact Sc.
+  assert (EJ : (pos_of stc - 3)%Z = Z.of_nat (List.length (ccode st) + List.length (encode ops ++ jf ++ seg_b))).
+  { unfold pos_of, stc, jf, je. cbn [ccode]. rewrite C. rewrite ?app_length; simpl List.length; rewrite ?app_length; simpl List.length; lia. }
+  assert (JFT : N.of_nat (List.length (ccode st)) + N.of_nat (List.length (encode ops ++ jf ++ seg_b ++ je)) = hi * 256 + lo).
+  { rewrite EH. unfold pos_of. cbn [ccode]. rewrite C4, C. unfold je. rewrite ?app_length; simpl List.length; rewrite ?app_length; simpl List.length; lia. }
+  split; [exact Sc|].
+  exists bs_b, (encode ops ++ jf ++ seg_b ++ je). split; [unfold stc; cbn [cbreaks]; rewrite Bb, B1; reflexivity|]. split.
+  { unfold stc, jf. cbn [ccode]. rewrite C, <- !app_assoc. reflexivity. }
+  intros t els st' End js bs_r seg_r HT2. rewrite EJ, <- !app_assoc.
+  set (stx := {| ccode := ccode ste ++ [N_of_opc JumpOnFalse; h0; l0]; cconsts := cconsts ste; csym := st_push (csym ste); cbreaks := cbreaks ste |}) in *.
+  assert (F4 : cconsts stx = cconsts ste) by reflexivity.
+  assert (F5 : same_resolve (csym stx) (csym st)) by (intro n; unfold stx; cbn [csym]; rewrite resolve_push, S1; reflexivity).
+  assert (F6 : N.of_nat (List.length (ccode stx)) = N.of_nat (List.length (ccode ste)) + 3) by (unfold stx; cbn [ccode]; rewrite app_length; simpl; lia).
+  assert (F8 : jbytes JumpOnFalse (N.of_nat (List.length (ccode st)) + N.of_nat (List.length (encode ops ++ jf ++ seg_b ++ je))) jf).
+  { exists hi, lo. split; [reflexivity|]. rewrite <- JFT. reflexivity. }
+  assert (F9 : jshape false End je) by (exists h1, l1; reflexivity).
+  assert (G1 : cconsts stc = cconsts st3) by reflexivity.
+  assert (G2 : same_resolve (csym stc) (csym st)) by (apply same_resolve_eq; exact Sc).
+  assert (G3 : N.of_nat (List.length (ccode stc)) = N.of_nat (List.length (ccode st3)) + 3).
+  { unfold stc, je. cbn [ccode]. rewrite Cb. unfold stx. cbn [ccode]. rewrite ?app_length; simpl List.length; rewrite ?app_length; simpl List.length; lia. }
+  exact (layc_cons None false c b t els st ste stx st3 stc st' End js bs_b bs_r (encode ops) seg_b jf je seg_r HF E1 C F4 F5 F6 L F8 F9 G1 G2 G3 HT2).
+Qed.
+
+Fixpoint clist_ok (l : clist) : Prop :=
+  match l with CNil => True | CCons c b t => efrag c = true /\ slist_lay b /\ clist_ok t end.
+
+(* the else-if blocks: the chain up to its (still unknown) tail *)
+Lemma elifs_lay : forall l, clist_ok l -> forall jumps st st2 js',
+  compile_elifs true l jumps st = (COk st2, js') -> gsym (csym st) -> has_gb (csym st) ->
+  csym st2 = csym st /\
+  exists js bs seg, js' = jumps ++ js /\ ccode st2 = ccode st ++ seg /\ cbreaks st2 = cbreaks st ++ bs /\
+    forall els st' End bs_e seg_e, LAYC None false CNil els st2 st' End [] bs_e seg_e ->
+      LAYC None false l els st st' End js (bs ++ bs_e) (seg ++ seg_e).
+Proof.
+  induction l as [|c b t IH]; intros HOK jumps st st2 js' HC HG HGB.
+  - cbn [compile_elifs] in HC. inversion HC; subst. split; [reflexivity|].
+    exists [], [], []. split; [rewrite app_nil_r; reflexivity|]. split; [rewrite app_nil_r; reflexivity|]. split; [rewrite app_nil_r; reflexivity|].
+    intros els st' End bs_e seg_e HT. exact HT.
+  - destruct HOK as (HF & HB & HOK). cbn [compile_elifs] in HC.
+    destruct (compile_cond true c b st) as [st1|] eqn:E1; [|inversion HC].
+    destruct (cond_lay c b st st1 HF HB E1 HG HGB) as (S1 & bs_h & segh & B1 & C1 & BUILD).
+    destruct (IH HOK _ _ _ _ HC) as (S2 & js & bs & seg & EJ & C2 & B2 & TAIL); [rewrite S1; exact HG|rewrite S1; exact HGB|].
+    split; [congruence|].
+    exists ((pos_of st1 - 3)%Z :: js), (bs_h ++ bs), (segh ++ seg). split; [rewrite EJ, <- app_assoc; reflexivity|].
+    split; [rewrite C2, C1, app_assoc; reflexivity|]. split; [rewrite B2, B1, app_assoc; reflexivity|].
+    intros els st' End bs_e seg_e HT. rewrite <- !app_assoc. apply BUILD. apply TAIL. exact HT.
+Qed.
+
+(* the final patching of compileIfStatement turns the pending chain into the
+   final one; segment lengths and all compile-time states stay *)
+Lemma layc_patch brk : forall l els st st' End js bs seg, LAYC brk false l els st st' End js bs seg ->
+  forall T s s' pre post, Z.to_N T = End -> ccode s = pre ++ seg ++ post -> List.length pre = List.length (ccode st) ->
+  patch_all true js T s = COk s' ->
+  exists seg', ccode s' = pre ++ seg' ++ post /\ cconsts s' = cconsts s /\ csym s' = csym s /\ cbreaks s' = cbreaks s /\
+    List.length seg' = List.length seg /\ LAYC brk true l els st st' End js bs seg'.
+Proof.
+  induction l as [|c b t IH]; intros els st st' End js bs seg HL T s s' pre post HT HC HLen HP.
+  - inversion HL; subst; rewrite patch_all_nil in HP; inversion HP; subst s'.
+    + exists []. repeat split; auto. constructor; assumption.
+    + exists seg. repeat split; auto. econstructor; eauto.
+  - inversion HL; subst.
+    match goal with H : jshape false _ _ |- _ => cbn [jshape] in H; destruct H as (h0 & l0 & ->) end.
+    unfold patch_all in HP. cbn [fold_left bind] in HP.
+    match type of HP with fold_left _ _ ?X = _ => destruct X as [s1|e] eqn:E1; [|rewrite fold_cerr in HP; discriminate] end.
+    change (patch_all true js0 T s1 = COk s') in HP.
+    assert (CC : ccode s = (pre ++ seg_c ++ jf ++ seg_b) ++ N_of_opc Jump :: h0 :: l0 :: (seg_r ++ post)).
+    { rewrite HC, <- !app_assoc. reflexivity. }
+    assert (EL : (List.length (ccode st) + List.length (seg_c ++ jf ++ seg_b))%nat = List.length (pre ++ seg_c ++ jf ++ seg_b)).
+    { rewrite (app_length pre), HLen. reflexivity. }
+    rewrite EL in E1.
+    destruct (patch_bytes _ _ h0 l0 (seg_r ++ post) T s s1 CC E1) as (HTr & hi & lo & EH & ->).
+    match goal with HJ : jbytes JumpOnFalse _ jf |- _ => pose proof (jbytes_len _ _ _ HJ) as Ljf end.
+    match goal with HB : LAYL _ b stx stb _ seg_b |- _ => pose proof (layl_len _ _ _ _ _ _ HB) as LLb end.
+    match goal with H1 : ccode st1 = ccode st ++ seg_c |- _ => pose proof (f_equal (@List.length N) H1) as L1; rewrite app_length in L1 end.
+    match type of HP with patch_all _ _ _ ?s1 = _ => set (s1v := s1) in * end.
+    lazymatch goal with HT2 : LAYC _ false t els sty st' _ js0 _ seg_r |- _ =>
+      destruct (IH els sty st' _ js0 _ seg_r HT2 T s1v s' (pre ++ seg_c ++ jf ++ seg_b ++ [N_of_opc Jump; hi; lo]) post eq_refl) as
+        (seg_r' & C' & K' & S' & B' & L' & LY'); [unfold s1v; cbn [ccode]; rewrite <- !app_assoc; reflexivity| |exact HP|] end.
+    { apply Nat2N.inj. rewrite !app_length, Ljf. simpl List.length. lia. }
+    unfold s1v in *. cbn [ccode cconsts csym cbreaks] in *.
+    exists (seg_c ++ jf ++ seg_b ++ [N_of_opc Jump; hi; lo] ++ seg_r').
+    split; [rewrite C', <- !app_assoc; reflexivity|]. split; [exact K'|]. split; [exact S'|]. split; [exact B'|].
+    split; [rewrite !app_length, L'; reflexivity|].
+    eapply layc_cons; try eassumption.
+    + match goal with HJ : jbytes JumpOnFalse ?X jf |- jbytes JumpOnFalse ?Y jf => replace Y with X; [exact HJ|] end.
+      rewrite !app_length. reflexivity.
+    + cbn [jshape]. exists hi, lo. split; [reflexivity|exact EH].
+Qed.
+
+Lemma lay_if_ok c b elifs els st st' : efrag c = true -> slist_lay b -> clist_ok elifs ->
+  (match els with NoElse => True | Else eb => slist_lay eb end) ->
+  compile_stmt true (SIf c b elifs els) st = COk st' -> gsym (csym st) -> has_gb (csym st) ->
+  LAYOK (SIf c b elifs els) st st'.
+Proof.
+  intros HF HB HEL HE HC HG HGB. cbn [compile_stmt] in HC.
+  destruct (compile_cond true c b st) as [st1|] eqn:E1; [|discriminate]. cbn [bind] in HC.
+  destruct (compile_elifs true elifs [(pos_of st1 - 3)%Z] st1) as [r jumps] eqn:E2.
+  destruct r as [st2|]; [|discriminate]. cbn [bind] in HC.
+  destruct (cond_lay c b st st1 HF HB E1 HG HGB) as (S1 & bs_h & segh & B1 & C1 & BUILD).
+  destruct (elifs_lay elifs HEL _ _ _ _ E2) as (S2 & js & bs2 & seg2 & EJ & C2 & B2 & TAIL); [rewrite S1; exact HG|rewrite S1; exact HGB|].
+  subst jumps. cbn [app] in HC.
+  assert (TAILOK : exists st3 ste End bs_e seg_e,
+            (match els with NoElse => COk st2 | Else eb => compile_block true eb st2 end) = COk st3 /\
+            LAYC None false CNil els st2 ste End [] bs_e seg_e /\ ccode st3 = ccode st2 ++ seg_e /\
+            End = N.of_nat (List.length (ccode st3)) /\ cconsts st3 = cconsts ste /\ csym st3 = csym st2 /\
+            cbreaks st3 = cbreaks st2 ++ bs_e).
+  { destruct els as [|eb].
+    - exists st2, st2, (N.of_nat (List.length (ccode st2))), [], []. repeat split; auto; [constructor; reflexivity|rewrite app_nil_r; reflexivity|rewrite app_nil_r; reflexivity].
+    - destruct (compile_block true eb st2) as [st3|] eqn:E6; [|discriminate]. cbn [bind] in HC.
+      destruct (lay_block eb st2 st3 HE E6) as (sty & stee & bs_e & seg_e & Le & Ky & Sy & Cy & Ce & Cee & Ke & Be & Se);
+        [rewrite S2, S1; exact HG|rewrite S2, S1; exact HGB|].
+      exists st3, stee, (N.of_nat (List.length (ccode st2)) + N.of_nat (List.length seg_e)), bs_e, seg_e.
+      split; [reflexivity|]. split; [apply (layc_nil_else None false eb st2 sty stee _ bs_e seg_e Ky Sy (f_equal (@List.length N) Cy) Le eq_refl)|].
+      split; [exact Ce|]. split; [rewrite Ce, app_length, Nat2N.inj_add; reflexivity|]. auto. }
+  destruct TAILOK as (st3 & ste & End & bs_e & seg_e & E3 & LT & C3 & EE & K3 & S3 & B3). rewrite E3 in HC. cbn [bind] in HC.
+  pose proof (BUILD _ _ _ _ _ _ _ (TAIL _ _ _ _ _ LT)) as LC.
+  destruct (layc_patch _ _ _ _ _ _ _ _ _ LC (pos_of st3) st3 st' (ccode st) []) as (seg' & C' & K' & S' & B' & L' & LY).
+  { unfold pos_of. rewrite EE. lia. }
+  { rewrite C3, C2, C1, app_nil_r, <- !app_assoc. reflexivity. }
+  { reflexivity. }
+  { exact HC. }
+  rewrite app_nil_r in C'.
+  exists (bs_h ++ bs2 ++ bs_e), seg'. split; [|split; [exact C'|split; [|congruence]]].
+  - eapply lay_if; [|rewrite K'; exact K3|congruence].
+    replace (N.of_nat (List.length (ccode st)) + N.of_nat (List.length seg')) with End; [exact LY|].
+    rewrite EE, C3, C2, C1, L', !app_length, !Nat2N.inj_add. lia.
+  - rewrite B', B3, B2, B1, <- !app_assoc. reflexivity.
 Qed.
 
 (* ---------- every statement of the fragment ---------- *)
@@ -711,43 +937,74 @@ Theorem lay_all :
   (forall s, wfrag_stmt s = true -> forall st st', compile_stmt true s st = COk st' ->
              gsym (csym st) -> has_gb (csym st) -> LAYOK s st st') /\
   (forall l, wfrag_slist l = true -> slist_lay l) /\
-  (forall l : clist, True) /\
+  (forall l, wfrag_clist l = true -> clist_ok l) /\
   (forall o, match o with NoElse => True | Else b => wfrag_slist b = true -> slist_lay b end).
 Proof.
   apply stmt_mutind; try (intros; exact I).
   - intros n e HF. discriminate.
   - intros target e HF st st' HC HG HGB. destruct target; try discriminate HF. apply (lay_assign_ok n e st st' HF HC HGB).
-  - intros c b Hb elifs _ els Ho HF st st' HC HG HGB. cbn [wfrag_stmt] in HF. destruct elifs; [|discriminate].
-    apply andb_true_iff in HF. destruct HF as [HF F3]. apply andb_true_iff in HF. destruct HF as [F1 F2].
-    apply (lay_if_ok c b els st st' F1 (Hb F2)); auto. destruct els; [exact I|apply Ho; exact F3].
+  - intros c b Hb elifs Hc els Ho HF st st' HC HG HGB. cbn [wfrag_stmt] in HF.
+    apply andb_true_iff in HF. destruct HF as [HF F4]. apply andb_true_iff in HF. destruct HF as [HF F3].
+    apply andb_true_iff in HF. destruct HF as [F1 F2].
+    apply (lay_if_ok c b elifs els st st' F1 (Hb F2) (Hc F3)); auto. destruct els; [exact I|apply Ho; exact F4].
   - intros c b Hb HF st st' HC HG HGB. cbn [wfrag_stmt] in HF. apply andb_true_iff in HF. destruct HF as [F1 F2].
     apply (lay_while_ok c b st st' F1 (Hb F2) HC HG HGB).
   - intros lv a b c d _ HF. discriminate.
   - intros lv t e b _ HF. discriminate.
-  - intros HF. discriminate.
+  - intros _ st st' HC _ _. apply (lay_break_ok st st' HC).
   - intros _ st st' HC _ _. cbn [compile_stmt] in HC. inversion HC; subst.
-    exists []. split; [constructor|]. split; [rewrite app_nil_r; reflexivity|]. split; reflexivity.
+    exists [], []. split; [constructor|]. split; [rewrite app_nil_r; reflexivity|]. split; [rewrite app_nil_r; reflexivity|reflexivity].
   - intros b _ HF. discriminate.
   - intros w HF. discriminate.
   - intros _ st st' HC _ _. cbn [body_of] in HC. inversion HC; subst.
-    exists []. split; [constructor|]. split; [rewrite app_nil_r; reflexivity|]. split; reflexivity.
+    exists [], []. split; [constructor|]. split; [rewrite app_nil_r; reflexivity|]. split; [rewrite app_nil_r; reflexivity|reflexivity].
   - intros s Hs t Ht HF st st' HC HG HGB. cbn [wfrag_slist] in HF. apply andb_true_iff in HF. destruct HF as [F1 F2].
     cbn [body_of] in HC. destruct (compile_stmt true s st) as [st1|] eqn:E1; [|discriminate]. cbn [bind] in HC.
-    destruct (Hs F1 st st1 E1 HG HGB) as (seg1 & L1 & C1 & B1 & S1). rewrite compile_slist_body in HC.
-    destruct (Ht F2 st1 st' HC) as (seg2 & L2 & C2 & B2 & S2); [rewrite S1; exact HG|rewrite S1; exact HGB|].
-    exists (seg1 ++ seg2). split; [|split; [rewrite C2, C1, app_assoc; reflexivity|split; congruence]].
+    destruct (Hs F1 st st1 E1 HG HGB) as (bs1 & seg1 & L1 & C1 & B1 & S1). rewrite compile_slist_body in HC.
+    destruct (Ht F2 st1 st' HC) as (bs2 & seg2 & L2 & C2 & B2 & S2); [rewrite S1; exact HG|rewrite S1; exact HGB|].
+    exists (bs1 ++ bs2), (seg1 ++ seg2). split; [|split; [rewrite C2, C1, app_assoc; reflexivity|split; [rewrite B2, B1, app_assoc; reflexivity|congruence]]].
     eapply layl_cons; eauto. rewrite C1, app_length, Nat2N.inj_add. reflexivity.
+  - intros c b Hb t Ht HF. cbn [wfrag_clist] in HF.
+    apply andb_true_iff in HF. destruct HF as [HF F3]. apply andb_true_iff in HF. destruct HF as [F1 F2].
+    cbn [clist_ok]. auto.
   - intros b Hb. exact Hb.
 Qed.
 
 (* ====================================================================== *)
 (* Part 3: whole programs, from NewCompiler and NewVM                      *)
 (* ====================================================================== *)
-Definition psfrag_stmt (s : stmt) : bool := match s with SDecl _ e => efrag e | _ => wfrag_stmt s end.
+(* no break outside a loop *)
+Fixpoint nb_stmt (s : stmt) : bool :=
+  match s with
+  | SBreak => false
+  | SIf c b elifs els => nb_slist b && nb_clist elifs && match els with NoElse => true | Else eb => nb_slist eb end
+  | _ => true
+  end
+with nb_slist (l : slist) : bool :=
+  match l with SNil => true | SCons s t => nb_stmt s && nb_slist t end
+with nb_clist (l : clist) : bool :=
+  match l with CNil => true | CCons c b t => nb_slist b && nb_clist t end.
+
+Lemma nb_no_breaks :
+  (forall brk s st st' bs seg, LAY brk s st st' bs seg -> nb_stmt s = true -> bs = []) /\
+  (forall brk l st st' bs seg, LAYL brk l st st' bs seg -> nb_slist l = true -> bs = []) /\
+  (forall brk fin l els st st' End js bs seg, LAYC brk fin l els st st' End js bs seg ->
+     nb_clist l = true -> match els with NoElse => True | Else eb => nb_slist eb = true end -> bs = []).
+Proof.
+  apply LAY_mutind; intros; try reflexivity.
+  - discriminate.
+  - cbn [nb_stmt] in H0. apply andb_true_iff in H0. destruct H0 as [H0 F3]. apply andb_true_iff in H0. destruct H0 as [F1 F2].
+    apply H; [cbn [nb_clist]; rewrite F1, F2; reflexivity|destruct els; [exact I|exact F3]].
+  - cbn [nb_slist] in H1. apply andb_true_iff in H1. destruct H1 as [F1 F2]. rewrite (H F1), (H0 F2). reflexivity.
+  - apply H. exact H1.
+  - cbn [nb_clist] in H1. apply andb_true_iff in H1. destruct H1 as [F1 F2]. rewrite (H F1), (H0 F2 H2). reflexivity.
+Qed.
+
+Definition psfrag_stmt (s : stmt) : bool := match s with SDecl _ e => efrag e | _ => wfrag_stmt s && nb_stmt s end.
 Fixpoint psfrag (p : slist) : bool := match p with SNil => true | SCons s t => psfrag_stmt s && psfrag t end.
 
 Definition STEP (s : stmt) (st st' : cstate) : Prop :=
-  forall fuel env env1, exec_s fuel s env = Some env1 ->
+  forall fuel env env1, exec_s fuel s env = Some (env1, false) ->
   top_ok st' /\ index (cur (csym st)) <= index (cur (csym st')) /\
   exists seg newc, ccode st' = ccode st ++ seg /\ cconsts st' = cconsts st ++ newc /\
     forall p vs pre post,
@@ -768,6 +1025,9 @@ Qed.
 Lemma step_decl n e st st' : efrag e = true -> compile_stmt true (SDecl n e) st = COk st' -> top_ok st -> STEP (SDecl n e) st st'.
 Proof.
   intros HF HC HT fuel env env1 HX. destruct fuel as [|f]; [discriminate|]. cbn [exec_s] in HX.
+  assert (HX' : exec_stmt env (SDecl n e) = Some env1).
+  { cbn [exec_stmt]. destruct (eval_expr env e); [|discriminate]. inversion HX. reflexivity. }
+  clear HX. rename HX' into HX.
   destruct (stmt_frag_ok (SDecl n e) env env1 st st' HF HC HT HX) as (T1 & M1 & seg & newc & C & K & D).
   split; [exact T1|]. split; [exact M1|]. exists seg, newc. split; [exact C|]. split; [exact K|].
   intros p vs pre post HP _ (more & HK) HI HO HL HIdx HG HD.
@@ -776,24 +1036,30 @@ Proof.
   - exists vs'. repeat split; auto. congruence.
 Qed.
 
-Lemma step_ctl s st st' : wfrag_stmt s = true -> compile_stmt true s st = COk st' -> top_ok st -> STEP s st st'.
+Lemma step_ctl s st st' : wfrag_stmt s = true -> nb_stmt s = true -> compile_stmt true s st = COk st' -> top_ok st -> STEP s st st'.
 Proof.
-  intros HF HC HT fuel env env1 HX.
+  intros HF HNB HC HT fuel env env1 HX.
   destruct (top_gsym st HT) as [HG HGB]. destruct (top_static st HT) as [HSS HSD].
-  destruct (proj1 lay_all s HF st st' HC HG HGB) as (seg & L & C & B & S).
-  destruct (proj1 lay_frame _ _ _ _ L) as [(newc & K) _].
+  destruct (proj1 lay_all s HF st st' HC HG HGB) as (bs & seg & L0 & C & B & S).
+  pose proof (proj1 nb_no_breaks _ _ _ _ _ _ L0 HNB) as ->.
+  (* no pending break: the layout holds for any break target *)
+  destruct (proj1 (lay_brk_patch 0%Z) _ _ _ _ _ _ L0 eq_refl st' st' (ccode st) []) as (seg' & C' & _ & _ & _ & _ & L);
+    [rewrite app_nil_r; exact C|reflexivity|reflexivity|].
+  rewrite app_nil_r, C in C'. apply app_inv_head in C'. subst seg'.
+  destruct (proj1 lay_frame _ _ _ _ _ _ L) as [(newc & K) _].
   split; [unfold top_ok; rewrite S; exact HT|]. split; [rewrite S; lia|].
   exists seg, newc. split; [exact C|]. split; [exact K|].
   intros p vs pre post HP HLen HK HI HO HL HIdx HGl HD.
   assert (HM : mstate_ok (List.length (globals vs)) st env vs).
   { repeat split; auto. intros m y HR. destruct (top_globals st HT m y HR) as [_ HI2]. rewrite S in HIdx. lia. }
-  destruct (proj1 (sim_all fuel) s st st' seg L _ env env1 HX p vs pre post HP HLen HK HI HM HSS HSD HD) as (vs' & R & I & (A1 & A2 & A3 & A4 & A5)).
+  destruct (proj1 (sim_all fuel) _ s st st' _ seg L _ env env1 false HX p vs pre post HP HLen HK HI HM HSS HSD HD) as (vs' & R & I & (A1 & A2 & A3 & A4 & A5)).
   exists vs'. repeat split; auto. rewrite S. exact A3.
 Qed.
 
 Lemma step_of_stmt s st st' : psfrag_stmt s = true -> compile_stmt true s st = COk st' -> top_ok st -> STEP s st st'.
 Proof.
-  intros HF HC HT. destruct s; try (apply step_ctl; assumption). apply (step_decl n e st st' HF HC HT).
+  intros HF HC HT. destruct s; try (cbn [psfrag_stmt] in HF; apply andb_true_iff in HF; destruct HF as [F1 F2]; apply step_ctl; assumption).
+  apply (step_decl n e st st' HF HC HT).
 Qed.
 
 (* compile_correct for programs with control flow: top-level declarations,
@@ -802,7 +1068,7 @@ Qed.
    model started by NewVM reaches the end of the code with an empty operand
    stack, halts, and every global slot holds the value of the semantics. *)
 Lemma prog_sem p : forall fuel env env' st st',
-  psfrag p = true -> compile_slist true p st = COk st' -> top_ok st -> exec_l fuel p env = Some env' ->
+  psfrag p = true -> compile_slist true p st = COk st' -> top_ok st -> exec_l fuel p env = Some (env', false) ->
   top_ok st' /\ index (cur (csym st)) <= index (cur (csym st')) /\
   exists seg newc, ccode st' = ccode st ++ seg /\ cconsts st' = cconsts st ++ newc /\
     forall pr vs pre post,
@@ -819,7 +1085,7 @@ Proof.
     exists [], []. split; [rewrite app_nil_r; reflexivity|]. split; [rewrite app_nil_r; reflexivity|].
     intros pr vs pre post _ _ _ HI HO HL _ HG _. exists vs. split; [apply reaches_refl|]. simpl. repeat split; auto. lia.
   - destruct fuel as [|f]; [discriminate|]. cbn [exec_l] in HX.
-    destruct (exec_s f s env) as [env1|] eqn:HX1; [|discriminate].
+    destruct (exec_s f s env) as [[env1 [|]]|] eqn:HX1; try discriminate.
     cbn [psfrag] in HF. apply andb_true_iff in HF. destruct HF as [F1 F2]. cbn [compile_slist] in HC.
     destruct (compile_stmt true s st) as [st1|] eqn:E1; [|discriminate]. cbn [bind] in HC.
     destruct (step_of_stmt s st st1 F1 E1 HT f env env1 HX1) as (T1 & M1 & seg1 & c1 & C1 & K1 & D1).
@@ -843,7 +1109,7 @@ Proof.
 Qed.
 
 Theorem compile_correct_ctl : forall (p : slist) (st : cstate) (fuel : nat) (env' : genv),
-  psfrag p = true -> compile p = COk st -> exec_l fuel p (fun _ => None) = Some env' ->
+  psfrag p = true -> compile p = COk st -> exec_l fuel p (fun _ => None) = Some (env', false) ->
   ldepth p <= StackSize ->
   let prog := program_of (bytecode_of st) in
   exists s, reaches prog (vm_init prog) s /\
